@@ -1,5 +1,7 @@
 /-
-  LzProofs.GenBufProps — the hand-written models of `ParserBuffer` (LzModel/PBuf.lean) and
+  LzProofs.GenBufProps — umbrella of GenBufPropsBase (slices, error variables), GenBufPropsP
+  (ParserBuffer, B01–B08), GenBufPropsD (DecoderBuffer, D01–D07) and GenBufPropsDCopy
+  (WriteMatch / WriteBlock, D08–D10): the hand-written models of `ParserBuffer` (LzModel/PBuf.lean) and
   `DecoderBuffer` (LzModel/DecBuf.lean) equal the code that `tools/extract -code` regenerates
   from parser_buffer.go / decoder_buffer.go (second part of LzModel/Generated/Code.lean:
   byte slices as values `Gen.Slice`, panics and loop fuel as `Gen.Res`, error variables).
@@ -26,1855 +28,6 @@
   syntactic shape of the generated definitions (proved by `rfl`/unfolding); they are the first
   thing that breaks when the Go source changes.
 -/
-import LzModel.Generated.Code
-import LzModel.PBuf
-import LzModel.DecBuf
-import LzProofs.GenProps
-import LzProofs.DecBufLemmas
-
-set_option linter.unusedSimpArgs false
-set_option linter.unusedVariables false
-
-namespace LZ.GenBuf
-open LZ LZ.Gen
-
-/-! ## slices -/
-
-/-- representation invariant of a slice value: the length does not exceed the capacity -/
-def SWF (s : Slice) : Prop := s.len ≤ s.arr.length
-
-@[simp] theorem bind_ok {α β : Type} (a : α) (f : α → Res β) : Res.bind (Res.ok a) f = f a := rfl
-@[simp] theorem bind_panic {α β : Type} (f : α → Res β) : Res.bind (Res.panic : Res α) f = Res.panic := rfl
-@[simp] theorem bind_fuel {α β : Type} (f : α → Res β) : Res.bind (Res.fuel : Res α) f = Res.fuel := rfl
-
-theorem data_length {s : Slice} (h : SWF s) : s.data.length = s.len := by
-  unfold Slice.data; unfold SWF at h; simp [List.length_take]; omega
-
-theorem slice_ok (s : Slice) (i j : Nat) (hij : i ≤ j) (hj : j ≤ s.arr.length) :
-    Slice.slice s (i : Int) (j : Int) = Res.ok { arr := s.arr.drop i, len := j - i } := by
-  unfold Slice.slice Slice.cap
-  have : (0 : Int) ≤ i ∧ (i : Int) ≤ j ∧ (j : Int) ≤ Int.ofNat s.arr.length := by
-    refine ⟨by omega, by omega, ?_⟩
-    show (j : Int) ≤ (s.arr.length : Int); omega
-  simp only [this, and_self, if_true, Int.toNat_natCast]
-
-theorem slice_panic (s : Slice) (i j : Int) (h : i < 0 ∨ j < i ∨ (s.arr.length : Int) < j) :
-    Slice.slice s i j = Res.panic := by
-  unfold Slice.slice Slice.cap
-  have : ¬ ((0 : Int) ≤ i ∧ i ≤ j ∧ j ≤ Int.ofNat s.arr.length) := by
-    intro ⟨h1, h2, h3⟩
-    have h3' : j ≤ (s.arr.length : Int) := h3
-    omega
-  simp only [this, if_false]
-
-theorem natmin_le (a b : Nat) : Nat.min a b = if a ≤ b then a else b := by
-  show Min.min a b = _
-  exact Nat.min_def
-
-/-- shifting the contents down by `d`: `n := copy(s, s[d:]); s = s[:n]` -/
-theorem shift_down (s : Slice) (h : SWF s) (d : Nat) (hd : d ≤ s.len) :
-    let c := Slice.copy s { arr := s.arr.drop d, len := s.len - d }
-    c.2 = ((s.len - d : Nat) : Int) ∧
-    ∃ s', Slice.slice c.1 0 ((s.len - d : Nat) : Int) = Res.ok s' ∧ s'.data = s.data.drop d ∧
-      s'.arr.length = s.arr.length ∧ s'.len = s.len - d := by
-  unfold SWF at h
-  have hm : Nat.min s.len (s.len - d) = s.len - d := by rw [natmin_le]; split <;> omega
-  simp only [Slice.copy, hm, Int.ofNat_eq_natCast, true_and]
-  have h0 : ((0 : Nat) : Int) = 0 := rfl
-  rw [← h0, slice_ok]
-  · refine ⟨_, rfl, ?_, ?_, ?_⟩
-    · simp only [Slice.data, List.drop_zero, Nat.sub_zero]
-      rw [List.take_append_of_le_length (by simp only [List.length_take, List.length_drop]; omega)]
-      rw [List.take_take, Nat.min_self, List.drop_take]
-    · simp only [List.drop_zero, List.length_append, List.length_take, List.length_drop]; omega
-    · simp
-  · omega
-  · simp only [List.length_append, List.length_take, List.length_drop]; omega
-
-theorem take_data_eq (s : Slice) (n : Nat) (h : n ≤ s.len) : s.data.take n = s.arr.take n := by
-  unfold Slice.data
-  rw [List.take_take]
-  congr 1; omega
-
-/-- `copy(d, s)`: count, contents, length and capacity of the modified `d` -/
-theorem copy_spec (d s : Slice) (hd : SWF d) (hs : SWF s) :
-    (Slice.copy d s).2 = ((Min.min d.len s.len : Nat) : Int) ∧
-    (Slice.copy d s).1.data = s.data.take d.len ++ d.data.drop (Min.min d.len s.len) ∧
-    (Slice.copy d s).1.len = d.len ∧ (Slice.copy d s).1.arr.length = d.arr.length := by
-  unfold SWF at hd hs
-  have hm : Nat.min d.len s.len = Min.min d.len s.len := rfl
-  simp only [Slice.copy, hm, Int.ofNat_eq_natCast, true_and]
-  refine ⟨?_, ?_⟩
-  · simp only [Slice.data]
-    rw [List.take_append, List.take_take, List.take_take, List.drop_take]
-    simp only [List.length_take]
-    congr 1
-    · congr 1; omega
-    · congr 1; omega
-  · simp only [List.length_append, List.length_take, List.length_drop]; omega
-
-theorem index_spec (s : Slice) (h : SWF s) (i : Nat) (hi : i < s.len) :
-    Slice.index s (i : Int) = Res.ok ((s.data[i]?).getD 0) := by
-  unfold Slice.index
-  have : (0 : Int) ≤ (i : Int) ∧ (i : Int) < Int.ofNat s.len := by
-    refine ⟨by omega, ?_⟩; show (i : Int) < (s.len : Int); omega
-  simp only [this, and_self, if_true, Int.toNat_natCast, Slice.data, List.getD_eq_getElem?_getD,
-    List.getElem?_take, hi]
-
-theorem append_spec (g : Nat → Nat → Nat) (s : Slice) (h : SWF s) (bs : List UInt8) :
-    (Slice.append g s bs).data = s.data ++ bs ∧ (Slice.append g s bs).len = s.len + bs.length ∧
-    (Slice.append g s bs).arr.length =
-      (if s.len + bs.length ≤ s.arr.length then s.arr.length
-       else s.len + bs.length + (g s.arr.length (s.len + bs.length) - (s.len + bs.length))) := by
-  unfold SWF at h
-  unfold Slice.append Slice.cap
-  by_cases hc : s.len + bs.length ≤ s.arr.length
-  · simp only [hc, if_true, Slice.data, List.length_append, List.length_take, List.length_drop, true_and]
-    refine ⟨?_, by omega⟩
-    rw [List.take_append_of_le_length (by simp only [List.length_append, List.length_take]; omega)]
-    rw [List.take_of_length_le (by simp only [List.length_append, List.length_take]; omega)]
-  · simp only [hc, if_false, Slice.data, List.length_append, List.length_take, List.length_replicate, true_and]
-    refine ⟨?_, by omega⟩
-    rw [List.take_append_of_le_length (by simp only [List.length_append, List.length_take]; omega)]
-    rw [List.take_of_length_le (by simp only [List.length_append, List.length_take]; omega)]
-
-theorem make_ok (n c : Nat) (h : n ≤ c) : Slice.make (n : Int) (c : Int) = Res.ok { arr := List.replicate c 0, len := n } := by
-  unfold Slice.make
-  have : (0 : Int) ≤ (n : Int) ∧ (n : Int) ≤ (c : Int) := ⟨by omega, by omega⟩
-  simp only [this, and_self, if_true, Int.toNat_natCast]
-
-theorem make_panic (n c : Int) (h : n < 0 ∨ c < n) : Slice.make n c = Res.panic := by
-  unfold Slice.make
-  have : ¬ ((0 : Int) ≤ n ∧ n ≤ c) := by omega
-  simp only [this, if_false]
-
-/-! ## errors -/
-
-/-- the model error a generated error value stands for; `none` for every other value -/
-def errOf (e : Gen.Err) : Option LZ.Err :=
-  if e = Gen.Err.ok then some .ok
-  else if e = Gen.ErrFullBuffer then some .full
-  else if e = Gen.ErrOutOfBuffer then some .outOfBuffer
-  else if e = Gen.ErrEndOfBuffer then some .endOfBuffer
-  else if e = Gen.errOffset then some .offset
-  else if e = Gen.errMatchLen then some .matchLen
-  else if e = Gen.errLitLen then some .litLen
-  else none
-
-@[simp] theorem errOf_ok : errOf Gen.Err.ok = some .ok := by decide
-@[simp] theorem errOf_full : errOf Gen.ErrFullBuffer = some .full := by decide
-@[simp] theorem errOf_oob : errOf Gen.ErrOutOfBuffer = some .outOfBuffer := by decide
-@[simp] theorem errOf_eob : errOf Gen.ErrEndOfBuffer = some .endOfBuffer := by decide
-@[simp] theorem errOf_offset : errOf Gen.errOffset = some .offset := by decide
-@[simp] theorem errOf_matchLen : errOf Gen.errMatchLen = some .matchLen := by decide
-@[simp] theorem errOf_litLen : errOf Gen.errLitLen = some .litLen := by decide
-
-/-- the error variables are pairwise distinct, and distinct from `nil` -/
-theorem errVars_distinct :
-    [Gen.Err.ok, Gen.ErrFullBuffer, Gen.ErrOutOfBuffer, Gen.ErrEndOfBuffer, Gen.errOffset, Gen.errMatchLen,
-     Gen.errLitLen].Nodup := by
-  decide
-
-/-! ## ParserBuffer -/
-
-/-- representation invariant of the generated `ParserBuffer` state under which the abstraction
-    `ofPB` (Go ints ↦ naturals) loses nothing the functions below look at -/
-structure PBWF (b : ParserBuffer) : Prop where
-  data : SWF b.Data
-  w : 0 ≤ b.W
-  off : 0 ≤ b.Off
-  ss : 0 ≤ b.BufConfig.ShrinkSize
-  bs : 0 ≤ b.BufConfig.BufferSize
-
-def ofCfg (c : Gen.BufConfig) : BufCfg :=
-  { shrinkSize := c.ShrinkSize.toNat, bufferSize := c.BufferSize.toNat,
-    windowSize := c.WindowSize.toNat, blockSize := c.BlockSize.toNat }
-
-/-- abstraction map: generated state record ↦ model state -/
-def ofPB (b : ParserBuffer) : PBuf :=
-  { data := b.Data.data, w := b.W.toNat, off := b.Off.toNat, cap := b.Data.cap, cfg := ofCfg b.BufConfig }
-
-/-- B01 `Shrink` -/
-theorem gen_pbuf_shrink (b : ParserBuffer) (h : PBWF b) (hw : b.W - b.BufConfig.ShrinkSize ≤ b.Data.len) :
-    ∃ b', ParserBuffer_Shrink b = Res.ok (b', ((PBuf.shrink (ofPB b)).2 : Int))
-      ∧ ofPB b' = (PBuf.shrink (ofPB b)).1 ∧ PBWF b' := by
-  obtain ⟨hd, hw0, ho0, hs0, hb0⟩ := h
-  have hd' : b.Data.len ≤ b.Data.arr.length := hd
-  unfold ParserBuffer_Shrink PBuf.shrink
-  by_cases hle : b.W - b.BufConfig.ShrinkSize ≤ 0
-  · have : (ofPB b).w ≤ (ofPB b).cfg.shrinkSize := by
-      simp only [ofPB, ofCfg]; omega
-    simp only [hle, this, if_true]
-    exact ⟨b, rfl, rfl, ⟨hd, hw0, ho0, hs0, hb0⟩⟩
-  · have : ¬ (ofPB b).w ≤ (ofPB b).cfg.shrinkSize := by
-      simp only [ofPB, ofCfg]; omega
-    simp only [hle, this, if_false]
-    obtain ⟨d, hdd⟩ : ∃ d : Nat, b.W - b.BufConfig.ShrinkSize = (d : Int) :=
-      ⟨(b.W - b.BufConfig.ShrinkSize).toNat, by omega⟩
-    have hdl : d ≤ b.Data.len := by omega
-    have hwd : (ofPB b).w - (ofPB b).cfg.shrinkSize = d := by simp only [ofPB, ofCfg]; omega
-    simp only [hdd, Int.ofNat_eq_natCast, hwd]
-    rw [slice_ok _ _ _ hdl hd]
-    obtain ⟨hc, s', hs', hdat, hcap, hlen⟩ := shift_down b.Data hd d hdl
-    simp only [bind_ok, hc, hs']
-    refine ⟨_, rfl, ?_, ?_⟩
-    · simp only [ofPB, hdat, Slice.cap, hcap, ofCfg]
-      congr 1 <;> omega
-    · exact ⟨by show s'.len ≤ s'.arr.length; omega, hs0, by show 0 ≤ b.Off + (d:Int); omega, hs0, hb0⟩
-
-/-- B01' where the model is total but the Go code panics: `W - ShrinkSize > len(Data)` -/
-theorem gen_pbuf_shrink_panic (b : ParserBuffer) (h : PBWF b) (hw : b.W - b.BufConfig.ShrinkSize > b.Data.len) :
-    ParserBuffer_Shrink b = Res.panic := by
-  unfold ParserBuffer_Shrink
-  have hle : ¬ b.W - b.BufConfig.ShrinkSize ≤ 0 := by omega
-  simp only [hle, if_false]
-  rw [slice_panic]; · rfl
-  right; left
-  show ((b.Data.len : Nat) : Int) < _
-  omega
-
-/-- B02 `ByteAt` -/
-theorem gen_pbuf_byteAt (b : ParserBuffer) (h : PBWF b) (off : Int) :
-    ∃ c e, ParserBuffer_ByteAt b off = Res.ok (c, e) ∧ c = (PBuf.byteAt (ofPB b) off).1 ∧
-      errOf e = some (PBuf.byteAt (ofPB b) off).2 := by
-  obtain ⟨hd, hw0, ho0, hs0, hb0⟩ := h
-  have hl := data_length hd
-  unfold ParserBuffer_ByteAt PBuf.byteAt
-  have ho : (((ofPB b).off : Nat) : Int) = b.Off := by simp only [ofPB]; omega
-  have hdl : (ofPB b).data.length = b.Data.len := hl
-  simp only [ho, hdl, Int.ofNat_eq_natCast]
-  by_cases hin : 0 ≤ off - b.Off ∧ off - b.Off < (b.Data.len : Int)
-  · simp only [hin, and_self, not_true_eq_false, if_false, if_true]
-    obtain ⟨i, hi⟩ : ∃ i : Nat, off - b.Off = (i : Int) := ⟨(off - b.Off).toNat, by omega⟩
-    rw [hi, index_spec _ hd i (by omega)]
-    simp only [bind_ok, Int.toNat_natCast]
-    exact ⟨_, _, rfl, rfl, errOf_ok⟩
-  · simp only [hin, not_false_eq_true, if_true, if_false]
-    by_cases he : off - b.Off = (b.Data.len : Int)
-    · simp only [he, if_true]; exact ⟨_, _, rfl, rfl, errOf_eob⟩
-    · simp only [he, if_false]; exact ⟨_, _, rfl, rfl, errOf_oob⟩
-
-/-- B03 `PeekAt` (for every `n`, also negative: the model is called with `n.toNat`) -/
-theorem gen_pbuf_peekAt (b : ParserBuffer) (h : PBWF b) (n off : Int) :
-    ∃ p e, ParserBuffer_PeekAt b n off = Res.ok (p, e) ∧ p.data = (PBuf.peekAt (ofPB b) n.toNat off).1 ∧
-      errOf e = some (PBuf.peekAt (ofPB b) n.toNat off).2 ∧ SWF p := by
-  obtain ⟨hd, hw0, ho0, hs0, hb0⟩ := h
-  have hd' : b.Data.len ≤ b.Data.arr.length := hd
-  have hl := data_length hd
-  unfold ParserBuffer_PeekAt PBuf.peekAt
-  have ho : (((ofPB b).off : Nat) : Int) = b.Off := by simp only [ofPB]; omega
-  have hdl : (ofPB b).data.length = b.Data.len := hl
-  simp only [ho, hdl, Int.ofNat_eq_natCast]
-  by_cases hin : 0 ≤ off - b.Off ∧ off - b.Off < (b.Data.len : Int)
-  · simp only [hin, and_self, not_true_eq_false, if_false, if_true]
-    obtain ⟨i, hi⟩ : ∃ i : Nat, off - b.Off = (i : Int) := ⟨(off - b.Off).toNat, by omega⟩
-    rw [hi, slice_ok _ _ _ (by omega) hd]
-    simp only [bind_ok, Int.toNat_natCast, List.length_drop, hdl]
-    have hdata : ({ arr := List.drop i b.Data.arr, len := b.Data.len - i } : Slice).data = List.drop i (ofPB b).data := by
-      simp only [Slice.data, ofPB, List.drop_take]
-    have hswf : SWF { arr := List.drop i b.Data.arr, len := b.Data.len - i } := by
-      show b.Data.len - i ≤ (List.drop i b.Data.arr).length
-      simp only [List.length_drop]; omega
-    by_cases hn : ((b.Data.len - i : Nat) : Int) < n
-    · have : b.Data.len - i < n.toNat := by omega
-      simp only [hn, this, if_true]
-      exact ⟨_, _, rfl, hdata, errOf_eob, hswf⟩
-    · have : ¬ b.Data.len - i < n.toNat := by omega
-      simp only [hn, this, if_false]
-      exact ⟨_, _, rfl, hdata, errOf_ok, hswf⟩
-  · simp only [hin, not_false_eq_true, if_true, if_false]
-    exact ⟨_, _, rfl, rfl, errOf_oob, Nat.le_refl _⟩
-
-/-- B04 `ReadAt(p, off)`: the bytes the model reports as copied are the new head of `p`, the tail
-    of `p` is unchanged, the count and the error agree -/
-theorem gen_pbuf_readAt (b : ParserBuffer) (h : PBWF b) (p : Slice) (hp : SWF p) (off : Int) :
-    ∃ p' n e, ParserBuffer_ReadAt b p off = Res.ok (p', n, e) ∧
-      p'.data = (PBuf.readAt (ofPB b) p.len off).1 ++ p.data.drop (PBuf.readAt (ofPB b) p.len off).1.length ∧
-      n = ((PBuf.readAt (ofPB b) p.len off).1.length : Int) ∧
-      errOf e = some (PBuf.readAt (ofPB b) p.len off).2 ∧
-      p'.len = p.len ∧ p'.arr.length = p.arr.length := by
-  obtain ⟨q, e, hq, hqd, hqe, hqw⟩ := gen_pbuf_peekAt b h (Int.ofNat p.len) off
-  unfold ParserBuffer_ReadAt PBuf.readAt
-  have hn : (Int.ofNat p.len).toNat = p.len := by simp
-  rw [hn] at hqd hqe
-  simp only [hq, bind_ok]
-  obtain ⟨hc2, hcd, hcl, hca⟩ := copy_spec p q hp hqw
-  refine ⟨_, _, _, rfl, ?_, ?_, hqe, hcl, hca⟩
-  · rw [hcd, hqd]
-    simp only [List.length_take]
-    congr 2
-    rw [← hqd, data_length hqw]
-  · rw [hc2]
-    simp only [List.length_take, ← hqd, data_length hqw]
-
-def growCapI (t bs : Int) : Int :=
-  let c := 2 * t + 7
-  let c := if c < 1024 then 1024 else c
-  if c ≥ bs + 7 then bs + 7 else c
-
-def growCapN (t bs : Nat) : Nat :=
-  let c := 2 * t + 7
-  let c := if c < 1024 then 1024 else c
-  if c ≥ bs + 7 then bs + 7 else c
-
-theorem growCap_eq (t bs : Nat) : growCapI t bs = (growCapN t bs : Int) := by
-  unfold growCapI growCapN
-  simp only []
-  repeat' split
-  all_goals omega
-
-theorem gen_grow_unfold (b : ParserBuffer) (t : Int) :
-    ParserBuffer_grow b t =
-      if t + 7 ≤ (b.Data.arr.length : Int) then Res.ok b
-      else Res.bind (Slice.make (b.Data.len : Int) (growCapI t b.BufConfig.BufferSize)) fun t_1 =>
-        Res.ok { b with Data := (Slice.copy t_1 b.Data).1 } := rfl
-
-theorem model_grow_unfold (m : PBuf) (t : Nat) :
-    PBuf.grow m t =
-      if t + 7 ≤ m.cap then some m
-      else if m.data.length ≤ growCapN t m.cfg.bufferSize then some { m with cap := growCapN t m.cfg.bufferSize } else none := rfl
-
-
-/-- B06 `grow(t)` for `t ≥ 0` -/
-theorem gen_pbuf_grow (b : ParserBuffer) (h : PBWF b) (t : Nat) :
-    match PBuf.grow (ofPB b) t with
-    | some m => ∃ b', ParserBuffer_grow b t = Res.ok b' ∧ ofPB b' = m ∧ PBWF b'
-    | none => ParserBuffer_grow b t = Res.panic := by
-  obtain ⟨hd, hw0, ho0, hs0, hb0⟩ := h
-  have hd' : b.Data.len ≤ b.Data.arr.length := hd
-  rw [gen_grow_unfold, model_grow_unfold]
-  have hcap : (ofPB b).cap = b.Data.arr.length := rfl
-  have hlen : (ofPB b).data.length = b.Data.len := data_length hd
-  obtain ⟨B, hB⟩ : ∃ B : Nat, b.BufConfig.BufferSize = (B : Int) := ⟨b.BufConfig.BufferSize.toNat, by omega⟩
-  have hbs : (ofPB b).cfg.bufferSize = B := by simp only [ofPB, ofCfg]; omega
-  rw [hcap, hlen, hbs, hB, growCap_eq]
-  by_cases h1 : t + 7 ≤ b.Data.arr.length
-  · have h1' : (t : Int) + 7 ≤ (b.Data.arr.length : Int) := by omega
-    simp only [h1, h1', if_true]
-    exact ⟨b, rfl, rfl, ⟨hd, hw0, ho0, hs0, hb0⟩⟩
-  · have h1' : ¬ (t : Int) + 7 ≤ (b.Data.arr.length : Int) := by omega
-    simp only [h1, h1', if_false]
-    by_cases h2 : b.Data.len ≤ growCapN t B
-    · simp only [h2, if_true]
-      rw [make_ok _ _ h2]
-      simp only [bind_ok]
-      have hz : SWF { arr := List.replicate (growCapN t B) 0, len := b.Data.len } := by
-        show b.Data.len ≤ (List.replicate (growCapN t B) (0 : UInt8)).length
-        simp only [List.length_replicate]; exact h2
-      obtain ⟨_, hcd, hcl, hca⟩ := copy_spec _ b.Data hz hd
-      refine ⟨_, rfl, ?_, ?_⟩
-      · simp only [ofPB, Slice.cap, hca, List.length_replicate, hcd, hbs]
-        congr 1
-        simp only [Nat.min_self]
-        rw [List.take_of_length_le (by rw [data_length hd]; exact Nat.le_refl _)]
-        have : (Slice.data { arr := List.replicate (growCapN t B) 0, len := b.Data.len }).length = b.Data.len :=
-          data_length hz
-        rw [List.drop_of_length_le (by omega), List.append_nil]
-      · refine ⟨?_, hw0, ho0, hs0, by rw [hB]; omega⟩
-        show (Slice.copy _ _).1.len ≤ (Slice.copy _ _).1.arr.length
-        rw [hcl, hca]; simp only [List.length_replicate]; exact h2
-    · simp only [h2, if_false]
-      rw [make_panic _ _ (by omega)]
-      rfl
-
-
-/-- the error of `Reset`: its only `fmt.Errorf` is the model's `oversize` -/
-def errOfReset (e : Gen.Err) : Option LZ.Err :=
-  if e = Gen.Err.ok then some .ok else if e = Gen.Err.error 1 then some .oversize else none
-
-/-- B05 `Reset(data)`; `cap(data) - len(data)` is the model's `capExtra` -/
-theorem gen_pbuf_reset (b : ParserBuffer) (h : PBWF b) (data : Slice) (hdat : SWF data) :
-    ∃ b' e, ParserBuffer_Reset b data = Res.ok (b', e) ∧
-      ofPB b' = (PBuf.reset (ofPB b) data.data (data.cap - data.len)).1 ∧
-      errOfReset e = some (PBuf.reset (ofPB b) data.data (data.cap - data.len)).2 ∧ PBWF b' := by
-  obtain ⟨hd, hw0, ho0, hs0, hb0⟩ := h
-  have hd' : b.Data.len ≤ b.Data.arr.length := hd
-  have hdat' : data.len ≤ data.arr.length := hdat
-  have hl := data_length hdat
-  obtain ⟨B, hB⟩ : ∃ B : Nat, b.BufConfig.BufferSize = (B : Int) := ⟨b.BufConfig.BufferSize.toNat, by omega⟩
-  have hbs : (ofPB b).cfg.bufferSize = B := by simp only [ofPB, ofCfg]; omega
-  unfold ParserBuffer_Reset PBuf.reset
-  simp only [hl, hbs, hB, Int.ofNat_eq_natCast, Facts.margin, Slice.cap]
-  by_cases h1 : data.len > B
-  · have h1' : (data.len : Int) > (B : Int) := by omega
-    simp only [h1, h1', if_true]
-    exact ⟨_, _, rfl, rfl, rfl, ⟨hd, hw0, ho0, hs0, hb0⟩⟩
-  · have h1' : ¬ (data.len : Int) > (B : Int) := by omega
-    simp only [h1, h1', if_false]
-    by_cases h2 : data.len = 0
-    · have h2' : (data.len : Int) = 0 := by omega
-      simp only [h2, h2', if_true]
-      have h0 : ((0 : Nat) : Int) = 0 := rfl
-      rw [← h0, slice_ok _ 0 0 (Nat.le_refl _) (Nat.zero_le _)]
-      simp only [bind_ok]
-      refine ⟨_, _, rfl, ?_, rfl, ⟨Nat.zero_le _, Int.le_refl _, Int.le_refl _, hs0, hb0⟩⟩
-      simp [ofPB, Slice.data, Slice.cap]
-    · have h2' : ¬ (data.len : Int) = 0 := by omega
-      simp only [h2, h2', if_false]
-      by_cases h3 : data.len + 7 > data.arr.length
-      · have h3' : (data.len : Int) + 7 > (data.arr.length : Int) := by omega
-        have h3'' : data.len + 7 > data.len + (data.arr.length - data.len) := by omega
-        simp only [h3', h3'', if_true]
-        by_cases h4 : data.len + 7 > b.Data.arr.length
-        · have h4' : (data.len : Int) + 7 > (b.Data.arr.length : Int) := by omega
-          have h4'' : data.len + 7 > (ofPB b).cap := h4
-          simp only [h4', h4'', if_true]
-          have e7 : (data.len : Int) + 7 = ((data.len + 7 : Nat) : Int) := by omega
-          rw [e7, make_ok _ _ (by omega)]
-          simp only [bind_ok]
-          have hz : SWF { arr := List.replicate (data.len + 7) 0, len := data.len } := by
-            show data.len ≤ (List.replicate (data.len + 7) (0 : UInt8)).length
-            simp only [List.length_replicate]; omega
-          obtain ⟨_, hcd, hcl, hca⟩ := copy_spec _ data hz hdat
-          refine ⟨_, _, rfl, ?_, rfl, ⟨?_, Int.le_refl _, Int.le_refl _, hs0, by rw [hB]; omega⟩⟩
-          · simp only [ofPB, Slice.cap, hca, hcd, List.length_replicate, Int.toNat_zero, Nat.min_self]
-            congr 1
-            rw [List.take_of_length_le (by rw [hl]; exact Nat.le_refl _)]
-            rw [List.drop_of_length_le (by rw [data_length hz]; exact Nat.le_refl _), List.append_nil]
-          · show (Slice.copy _ _).1.len ≤ (Slice.copy _ _).1.arr.length
-            rw [hcl, hca]; simp only [List.length_replicate]; omega
-        · have h4' : ¬ (data.len : Int) + 7 > (b.Data.arr.length : Int) := by omega
-          have h4'' : ¬ data.len + 7 > (ofPB b).cap := h4
-          simp only [h4', h4'', if_false]
-          have h0 : ((0 : Nat) : Int) = 0 := rfl
-          rw [← h0, slice_ok _ 0 data.len (Nat.zero_le _) (by omega)]
-          simp only [bind_ok, List.drop_zero, Nat.sub_zero]
-          have hz : SWF { arr := b.Data.arr, len := data.len } := by
-            show data.len ≤ b.Data.arr.length; omega
-          obtain ⟨_, hcd, hcl, hca⟩ := copy_spec _ data hz hdat
-          refine ⟨_, _, rfl, ?_, rfl, ⟨?_, Int.le_refl _, Int.le_refl _, hs0, by rw [hB]; omega⟩⟩
-          · simp only [ofPB, Slice.cap, hca, hcd, Int.toNat_zero, Nat.min_self]
-            congr 1
-            rw [List.take_of_length_le (by rw [hl]; exact Nat.le_refl _)]
-            rw [List.drop_of_length_le (by rw [data_length hz]; exact Nat.le_refl _), List.append_nil]
-          · show (Slice.copy _ _).1.len ≤ (Slice.copy _ _).1.arr.length
-            rw [hcl, hca]; exact hz
-      · have h3' : ¬ (data.len : Int) + 7 > (data.arr.length : Int) := by omega
-        have h3'' : ¬ data.len + 7 > data.len + (data.arr.length - data.len) := by omega
-        simp only [h3', h3'', if_false, bind_ok]
-        refine ⟨_, _, rfl, ?_, rfl, ⟨hdat, Int.le_refl _, Int.le_refl _, hs0, by rw [hB]; omega⟩⟩
-        simp only [ofPB, Slice.cap, Int.toNat_zero]
-        congr 1; omega
-
-
-theorem growCapN_ge (t B : Nat) (h : t ≤ B) : t ≤ growCapN t B := by
-  unfold growCapN
-  simp only []
-  repeat' split
-  all_goals omega
-
-theorem model_grow_some (m m' : PBuf) (t : Nat) (h : PBuf.grow m t = some m') (ht : t ≤ m.cfg.bufferSize) :
-    m'.data = m.data ∧ m'.w = m.w ∧ m'.off = m.off ∧ m'.cfg = m.cfg ∧ t ≤ m'.cap := by
-  rw [model_grow_unfold] at h
-  split at h
-  · cases h; exact ⟨rfl, rfl, rfl, rfl, by omega⟩
-  · split at h
-    · cases h; exact ⟨rfl, rfl, rfl, rfl, growCapN_ge t _ ht⟩
-    · cases h
-
-/-- agreement of a generated result `(state, n, err)` with the model's; a model `.panic` stands for a Go panic -/
-def PBAgree (r : Res (ParserBuffer × Int × Gen.Err)) (m : PBuf × Nat × LZ.Err) : Prop :=
-  match r with
-  | .ok (b', n, e) => m.2.2 ≠ .panic ∧ ofPB b' = m.1 ∧ n = (m.2.1 : Int) ∧ errOf e = some m.2.2 ∧ PBWF b'
-  | .panic => m.2.2 = .panic
-  | .fuel => False
-
-/-- the part of `Write` after `p` has been cut to the available space -/
-theorem write_tail (g : Nat → Nat → Nat) (b : ParserBuffer) (h : PBWF b) (p : Slice) (hp : SWF p)
-    (e : Gen.Err) (me : LZ.Err) (hme : errOf e = some me) (hnp : me ≠ .panic)
-    (hfit : b.Data.len + p.len ≤ (ofPB b).cfg.bufferSize) :
-    PBAgree
-      (Res.bind (if ((b.Data.len : Int) + (p.len : Int)) + 7 > (b.Data.arr.length : Int)
-                 then Res.bind (ParserBuffer_grow b ((b.Data.len : Int) + (p.len : Int))) fun r_3 => Res.ok r_3
-                 else Res.ok b) fun j =>
-        Res.ok ({ j with Data := Slice.append g j.Data p.data }, (p.len : Int), e))
-      (match (if (ofPB b).data.length + p.data.length + Facts.margin > (ofPB b).cap
-              then PBuf.grow (ofPB b) ((ofPB b).data.length + p.data.length) else some (ofPB b)) with
-       | none => (ofPB b, 0, .panic)
-       | some b' =>
-         let cap' := if (ofPB b).data.length + p.data.length ≤ b'.cap then b'.cap
-                     else (ofPB b).data.length + p.data.length
-         ({ b' with data := b'.data ++ p.data, cap := cap' }, p.data.length, me)) := by
-  have hwf := h
-  obtain ⟨hd, hw0, ho0, hs0, hb0⟩ := h
-  have hd' : b.Data.len ≤ b.Data.arr.length := hd
-  have hlen : (ofPB b).data.length = b.Data.len := data_length hd
-  have hpl : p.data.length = p.len := data_length hp
-  have hcap : (ofPB b).cap = b.Data.arr.length := rfl
-  have hcast : (b.Data.len : Int) + (p.len : Int) = ((b.Data.len + p.len : Nat) : Int) := by omega
-  rw [hlen, hpl, hcap, hcast]
-  simp only [Facts.margin]
-  -- the common last step
-  have fin : ∀ (b' : ParserBuffer) (m : PBuf), ofPB b' = m → PBWF b' →
-      m.data = (ofPB b).data → m.w = (ofPB b).w → m.off = (ofPB b).off → m.cfg = (ofPB b).cfg →
-      b.Data.len + p.len ≤ m.cap →
-      PBAgree (Res.ok ({ b' with Data := Slice.append g b'.Data p.data }, (p.len : Int), e))
-        ({ m with data := m.data ++ p.data,
-                  cap := if b.Data.len + p.len ≤ m.cap then m.cap else b.Data.len + p.len }, p.len, me) := by
-    intro b' m hbm hwf' hmd hmw hmo hmc hmcap
-    obtain ⟨hd2, hw2, ho2, hs2, hb2⟩ := hwf'
-    have hd2' : b'.Data.len ≤ b'.Data.arr.length := hd2
-    obtain ⟨had, hal, haa⟩ := append_spec g b'.Data hd2 p.data
-    have hl2 : b'.Data.len = b.Data.len := by
-      rw [← data_length hd2, ← hlen, ← hmd, ← hbm]; rfl
-    have hc2 : b'.Data.arr.length = m.cap := by rw [← hbm]; rfl
-    have hin : b'.Data.len + p.data.length ≤ b'.Data.arr.length := by omega
-    simp only [hin, if_true] at haa
-    simp only [hmcap, if_true]
-    refine ⟨hnp, ?_, rfl, hme, ⟨?_, hw2, ho2, hs2, hb2⟩⟩
-    · subst hbm
-      simp only [ofPB, had, Slice.cap, haa]
-    · show (Slice.append g b'.Data p.data).len ≤ (Slice.append g b'.Data p.data).arr.length
-      rw [hal, haa]; exact hin
-  by_cases hc : b.Data.len + p.len + 7 > b.Data.arr.length
-  · have hc' : ((b.Data.len + p.len : Nat) : Int) + 7 > (b.Data.arr.length : Int) := by omega
-    simp only [hc, hc', if_true]
-    have hg := gen_pbuf_grow b hwf (b.Data.len + p.len)
-    cases hgm : PBuf.grow (ofPB b) (b.Data.len + p.len) with
-    | none =>
-      rw [hgm] at hg
-      simp only [] at hg
-      rw [hg]; rfl
-    | some m =>
-      rw [hgm] at hg
-      obtain ⟨b', hgb, hbm, hwf'⟩ := hg
-      rw [hgb]
-      simp only [bind_ok]
-      obtain ⟨h1, h2, h3, h4, h5⟩ := model_grow_some _ _ _ hgm hfit
-      exact fin b' m hbm hwf' h1 h2 h3 h4 h5
-  · have hc' : ¬ ((b.Data.len + p.len : Nat) : Int) + 7 > (b.Data.arr.length : Int) := by omega
-    simp only [hc, hc', if_false, bind_ok]
-    exact fin b (ofPB b) rfl hwf rfl rfl rfl rfl (by rw [hcap]; omega)
-
-/-- B07 `Write(p)`, for every growth function -/
-theorem gen_pbuf_write (g : Nat → Nat → Nat) (b : ParserBuffer) (h : PBWF b) (p : Slice) (hp : SWF p) :
-    PBAgree (ParserBuffer_Write g b p) (PBuf.write (ofPB b) p.data) := by
-  have hwf := h
-  obtain ⟨hd, hw0, ho0, hs0, hb0⟩ := h
-  have hd' : b.Data.len ≤ b.Data.arr.length := hd
-  have hp' : p.len ≤ p.arr.length := hp
-  have hlen : (ofPB b).data.length = b.Data.len := data_length hd
-  have hpl : p.data.length = p.len := data_length hp
-  obtain ⟨B, hB⟩ : ∃ B : Nat, b.BufConfig.BufferSize = (B : Int) := ⟨b.BufConfig.BufferSize.toNat, by omega⟩
-  have hbs : (ofPB b).cfg.bufferSize = B := by simp only [ofPB, ofCfg]; omega
-  unfold ParserBuffer_Write PBuf.write
-  simp only [Int.ofNat_eq_natCast, Slice.cap]
-  by_cases h1 : (ofPB b).cfg.bufferSize < (ofPB b).data.length
-  · simp only [h1, if_true]
-    rw [hbs, hlen] at h1
-    have : b.BufConfig.BufferSize - (b.Data.len : Int) < (p.len : Int) := by omega
-    simp only [this, if_true]
-    rw [slice_panic _ _ _ (by omega)]
-    rfl
-  · simp only [h1, if_false]
-    rw [hbs, hlen] at h1
-    by_cases h2 : (ofPB b).cfg.bufferSize - (ofPB b).data.length < p.data.length
-    · simp only [h2, if_true]
-      rw [hbs, hlen, hpl] at h2
-      have h2' : b.BufConfig.BufferSize - (b.Data.len : Int) < (p.len : Int) := by omega
-      simp only [h2', if_true]
-      have hav : b.BufConfig.BufferSize - (b.Data.len : Int) = ((B - b.Data.len : Nat) : Int) := by omega
-      have h0 : ((0 : Nat) : Int) = 0 := rfl
-      rw [hav, ← h0, slice_ok _ 0 (B - b.Data.len) (Nat.zero_le _) (by omega)]
-      simp only [bind_ok, List.drop_zero, Nat.sub_zero]
-      have hq : SWF { arr := p.arr, len := B - b.Data.len } := by
-        show B - b.Data.len ≤ p.arr.length; omega
-      have hqd : ({ arr := p.arr, len := B - b.Data.len } : Slice).data = p.data.take ((ofPB b).cfg.bufferSize - (ofPB b).data.length) := by
-        rw [hbs, hlen, take_data_eq _ _ (by omega)]; rfl
-      rw [← hqd]
-      exact write_tail g b hwf _ hq _ _ errOf_full (by decide) (by rw [hbs]; show b.Data.len + (B - b.Data.len) ≤ B; omega)
-    · simp only [h2, if_false]
-      rw [hbs, hlen, hpl] at h2
-      have h2' : ¬ b.BufConfig.BufferSize - (b.Data.len : Int) < (p.len : Int) := by omega
-      simp only [h2', if_false, bind_ok]
-      exact write_tail g b hwf p hp _ _ errOf_ok (by decide) (by rw [hbs]; omega)
-
-
-/-- B08 `Init(cfg)`: the configuration error is passed on and the buffer left alone; otherwise the
-    buffer is the model's initial state, except that the capacity of the old `Data` is kept
-    (`b.Data[:0]`; the model's `init` describes a zero `ParserBuffer`, capacity 0) -/
-theorem gen_pbuf_init (b : ParserBuffer) (cfg : Gen.BufConfig) :
-    (BufConfig_Verify (BufConfig_SetDefaults cfg) ≠ Gen.Err.ok →
-      ParserBuffer_Init b cfg = Res.ok (b, BufConfig_Verify (BufConfig_SetDefaults cfg))) ∧
-    (BufConfig_Verify (BufConfig_SetDefaults cfg) = Gen.Err.ok →
-      ∃ b', ParserBuffer_Init b cfg = Res.ok (b', Gen.Err.ok) ∧
-        ofPB b' = { PBuf.init (ofCfg (BufConfig_SetDefaults cfg)) with cap := b.Data.cap } ∧ PBWF b') := by
-  unfold ParserBuffer_Init
-  refine ⟨fun hne => ?_, fun hok => ?_⟩
-  · simp only [hne, ne_eq, not_false_eq_true, if_true]
-  · have h0 : ((0 : Nat) : Int) = 0 := rfl
-    simp only [hok, ne_eq, not_true_eq_false, if_false]
-    rw [← h0, slice_ok _ 0 0 (Nat.le_refl _) (Nat.zero_le _)]
-    simp only [bind_ok]
-    have hv : 1 ≤ (BufConfig_SetDefaults cfg).BufferSize ∧ (BufConfig_SetDefaults cfg).BufferSize ≤ 4294967288 := by
-      apply Classical.byContradiction; intro hn
-      have := (GenProps.gen_bufVerify_error1 _).mpr hn; rw [hok] at this; cases this
-    have hss : 0 ≤ (BufConfig_SetDefaults cfg).ShrinkSize ∧ (BufConfig_SetDefaults cfg).ShrinkSize < (BufConfig_SetDefaults cfg).BufferSize := by
-      apply Classical.byContradiction; intro hn
-      have := (GenProps.gen_bufVerify_error2 _).mpr ⟨hv, hn⟩; rw [hok] at this; cases this
-    refine ⟨_, rfl, ?_, ⟨Nat.zero_le _, Int.le_refl _, Int.le_refl _, hss.1, by have := hv.1; show (0:Int) ≤ (BufConfig_SetDefaults cfg).BufferSize; omega⟩⟩
-    simp [ofPB, PBuf.init, Slice.data, Slice.cap]
-
-/-! ## DecoderBuffer -/
-
-structure DBWF (b : DecoderBuffer) : Prop where
-  data : SWF b.Data
-  r : 0 ≤ b.R
-  off : 0 ≤ b.Off
-  ws : 0 ≤ b.DecoderConfig.WindowSize
-  bs : 0 ≤ b.DecoderConfig.BufferSize
-
-/-- abstraction map: generated `DecoderBuffer` ↦ model `DecBuf` -/
-def ofDB (b : DecoderBuffer) : DecBuf :=
-  { data := b.Data.data, r := b.R.toNat, off := b.Off.toNat, ws := b.DecoderConfig.WindowSize.toNat,
-    bs := b.DecoderConfig.BufferSize.toNat, cap := b.Data.cap }
-
-/-- what the Go run time guarantees about the capacity `append` chooses -/
-def GrowOK (g : Nat → Nat → Nat) : Prop := ∀ c n, n ≤ g c n
-
-/-- D01 `Init(cfg)` -/
-theorem gen_dbuf_init (b : DecoderBuffer) (cfg : Gen.DecoderConfig) :
-    match DecBuf.init cfg.WindowSize cfg.BufferSize b.Data.cap with
-    | some m => ∃ b', DecoderBuffer_Init b cfg = Res.ok (b', Gen.Err.ok) ∧ ofDB b' = m ∧ DBWF b'
-    | none => ∃ e, DecoderBuffer_Init b cfg = Res.ok (b, e) ∧ e ≠ Gen.Err.ok := by
-  unfold DecBuf.init
-  rw [GenProps.gen_decCfg]
-  have hc : (⟨cfg.WindowSize, cfg.BufferSize⟩ : Gen.DecoderConfig) = cfg := rfl
-  simp only [hc]
-  unfold DecoderBuffer_Init
-  by_cases hok : DecoderConfig_Verify (DecoderConfig_SetDefaults cfg) = Gen.Err.ok
-  · simp only [hok, ne_eq, not_true_eq_false, if_false, if_true]
-    have h0 : ((0 : Nat) : Int) = 0 := rfl
-    rw [← h0, slice_ok _ 0 0 (Nat.le_refl _) (Nat.zero_le _)]
-    simp only [bind_ok, List.drop_zero, Slice.cap, Int.ofNat_eq_natCast]
-    have hv := (GenProps.gen_decVerify (DecoderConfig_SetDefaults cfg)).mp hok
-    obtain ⟨⟨hb1, _⟩, hw0, _⟩ := hv
-    by_cases hcap : (b.Data.arr.length : Int) > (DecoderConfig_SetDefaults cfg).BufferSize
-    · have hcap' : b.Data.arr.length > (DecoderConfig_SetDefaults cfg).BufferSize.toNat := by omega
-      simp only [hcap, hcap', if_true]
-      refine ⟨_, rfl, ?_, ⟨Nat.zero_le _, Int.le_refl _, Int.le_refl _, hw0, by show (0:Int) ≤ (b.Data.arr.length : Int); omega⟩⟩
-      simp [ofDB, Slice.data, Slice.cap]
-    · have hcap' : ¬ b.Data.arr.length > (DecoderConfig_SetDefaults cfg).BufferSize.toNat := by omega
-      simp only [hcap, hcap', if_false]
-      refine ⟨_, rfl, ?_, ⟨Nat.zero_le _, Int.le_refl _, Int.le_refl _, hw0, by show (0:Int) ≤ (DecoderConfig_SetDefaults cfg).BufferSize; omega⟩⟩
-      simp [ofDB, Slice.data, Slice.cap]
-  · simp only [hok, ne_eq, not_false_eq_true, if_true, if_false]
-    exact ⟨_, rfl, hok⟩
-
-/-- D02 `Reset()` -/
-theorem gen_dbuf_reset (b : DecoderBuffer) (h : DBWF b) :
-    ∃ b', DecoderBuffer_Reset b = Res.ok b' ∧ ofDB b' = (ofDB b).reset ∧ DBWF b' := by
-  obtain ⟨hd, hr0, ho0, hw0, hb0⟩ := h
-  unfold DecoderBuffer_Reset DecBuf.reset
-  have h0 : ((0 : Nat) : Int) = 0 := rfl
-  rw [← h0, slice_ok _ 0 0 (Nat.le_refl _) (Nat.zero_le _)]
-  simp only [bind_ok, List.drop_zero, Slice.cap, Int.ofNat_eq_natCast]
-  by_cases hcap : (b.Data.arr.length : Int) > b.DecoderConfig.BufferSize
-  · have hcap' : (ofDB b).cap > (ofDB b).bs := by simp only [ofDB, Slice.cap]; omega
-    simp only [hcap, hcap', if_true]
-    refine ⟨_, rfl, ?_, ⟨Nat.zero_le _, Int.le_refl _, Int.le_refl _, hw0, by show (0:Int) ≤ (b.Data.arr.length : Int); omega⟩⟩
-    simp [ofDB, Slice.data, Slice.cap]
-  · have hcap' : ¬ (ofDB b).cap > (ofDB b).bs := by simp only [ofDB, Slice.cap]; omega
-    simp only [hcap, hcap', if_false]
-    refine ⟨_, rfl, ?_, ⟨Nat.zero_le _, Int.le_refl _, Int.le_refl _, hw0, hb0⟩⟩
-    simp [ofDB, Slice.data, Slice.cap]
-
-/-- D03 `ByteAtEnd(off)` -/
-theorem gen_dbuf_byteAtEnd (b : DecoderBuffer) (h : SWF b.Data) (off : Int) :
-    DecoderBuffer_ByteAtEnd b off = Res.ok (DecBuf.byteAtEnd (ofDB b) off) := by
-  unfold DecoderBuffer_ByteAtEnd DecBuf.byteAtEnd
-  have hl : (ofDB b).data.length = b.Data.len := data_length h
-  simp only [hl, Int.ofNat_eq_natCast]
-  by_cases hin : 0 ≤ (b.Data.len : Int) - off ∧ (b.Data.len : Int) - off < (b.Data.len : Int)
-  · simp only [hin, and_self, not_true_eq_false, if_false, if_true]
-    obtain ⟨i, hi⟩ : ∃ i : Nat, (b.Data.len : Int) - off = (i : Int) := ⟨((b.Data.len : Int) - off).toNat, by omega⟩
-    rw [hi, index_spec _ h i (by omega)]
-    simp only [bind_ok, Int.toNat_natCast]
-    rfl
-  · simp only [hin, not_false_eq_true, if_true, if_false]
-
-/-- D04 `Read(p)`: the bytes the model returns are the new head of `p` -/
-theorem gen_dbuf_read (b : DecoderBuffer) (h : DBWF b) (hr : b.R ≤ b.Data.len) (p : Slice) (hp : SWF p) :
-    ∃ b' p' n, DecoderBuffer_Read b p = Res.ok (b', p', n, Gen.Err.ok) ∧
-      ofDB b' = (DecBuf.read (ofDB b) p.len).1 ∧
-      p'.data = (DecBuf.read (ofDB b) p.len).2 ++ p.data.drop (DecBuf.read (ofDB b) p.len).2.length ∧
-      n = ((DecBuf.read (ofDB b) p.len).2.length : Int) ∧ DBWF b' ∧ b'.R ≤ b'.Data.len ∧
-      p'.len = p.len ∧ p'.arr.length = p.arr.length := by
-  obtain ⟨hd, hr0, ho0, hw0, hb0⟩ := h
-  have hd' : b.Data.len ≤ b.Data.arr.length := hd
-  unfold DecoderBuffer_Read DecBuf.read
-  obtain ⟨r, hrr⟩ : ∃ r : Nat, b.R = (r : Int) := ⟨b.R.toNat, by omega⟩
-  have hmr : (ofDB b).r = r := by simp only [ofDB]; omega
-  simp only [hrr, hmr, Int.ofNat_eq_natCast]
-  rw [slice_ok _ _ _ (by omega) hd]
-  simp only [bind_ok]
-  have hq : SWF { arr := List.drop r b.Data.arr, len := b.Data.len - r } := by
-    show b.Data.len - r ≤ (List.drop r b.Data.arr).length
-    simp only [List.length_drop]; omega
-  have hqd : ({ arr := List.drop r b.Data.arr, len := b.Data.len - r } : Slice).data = List.drop r (ofDB b).data := by
-    simp only [Slice.data, ofDB, List.drop_take]
-  obtain ⟨hc2, hcd, hcl, hca⟩ := copy_spec p _ hp hq
-  have hql : (List.drop r (ofDB b).data).length = b.Data.len - r := by rw [← hqd, data_length hq]
-  refine ⟨_, _, _, rfl, ?_, ?_, ?_, ⟨hd, ?_, ho0, hw0, hb0⟩, ?_, hcl, hca⟩
-  · simp only [ofDB, hc2, List.length_take, List.length_drop, data_length hd]
-    congr 1
-  · rw [hcd, hqd]
-    simp only [List.length_take, hql]
-  · rw [hc2]; simp only [List.length_take, hql]
-  · show (0 : Int) ≤ (r : Int) + (Slice.copy _ _).2
-    rw [hc2]; omega
-  · show (r : Int) + (Slice.copy _ _).2 ≤ (b.Data.len : Int)
-    rw [hc2]
-    show (r : Int) + ((Min.min p.len (b.Data.len - r) : Nat) : Int) ≤ _
-    omega
-
-/-- D04' the model's `read` is total, the Go code panics when `R > len(Data)` -/
-theorem gen_dbuf_read_panic (b : DecoderBuffer) (hr : b.R > b.Data.len) (p : Slice) :
-    DecoderBuffer_Read b p = Res.panic := by
-  unfold DecoderBuffer_Read
-  rw [slice_panic _ _ _ (by right; left; show ((b.Data.len : Nat) : Int) < b.R; omega)]
-  rfl
-
-
-/-- the part of `shrink` after the capacity check -/
-def shrinkTail (b : DecoderBuffer) : Res (DecoderBuffer × Int) :=
-  let delta : Int := LZ.Gen.doz (Int.ofNat b.Data.len) b.DecoderConfig.WindowSize
-  let delta : Int := if b.R < delta then b.R else delta
-  if delta = 0 then Res.ok (b, (0 : Int))
-  else
-    Res.bind (Slice.slice b.Data delta (Int.ofNat b.Data.len)) fun t_1 =>
-    let r_2 := Slice.copy b.Data t_1
-    let b : DecoderBuffer := { b with Data := r_2.1 }
-    let k : Int := r_2.2
-    Res.bind (Slice.slice b.Data 0 k) fun t_3 =>
-    let b : DecoderBuffer := { b with Data := t_3 }
-    let b : DecoderBuffer := { b with R := b.R - delta }
-    Res.ok (b, delta)
-
-theorem gen_shrink_unfold (b : DecoderBuffer) (g : Int) :
-    DecoderBuffer_shrink b g =
-      if b.DecoderConfig.BufferSize < Int.ofNat b.Data.cap then
-        if g ≤ Int.ofNat b.Data.cap then
-          Res.ok ({ b with DecoderConfig := { b.DecoderConfig with BufferSize := Int.ofNat b.Data.cap } }, (0 : Int))
-        else shrinkTail { b with DecoderConfig := { b.DecoderConfig with BufferSize := Int.ofNat b.Data.cap } }
-      else shrinkTail b := rfl
-
-def modelShrinkTail (m : DecBuf) : DecBuf × Nat :=
-  let delta := Min.min (m.data.length - m.ws) m.r
-  if delta = 0 then (m, 0)
-  else ({ m with data := m.data.drop delta, r := m.r - delta }, delta)
-
-theorem model_shrink_unfold (m : DecBuf) (g : Nat) :
-    DecBuf.shrink m g =
-      if m.bs < m.cap then
-        if g ≤ m.cap then ({ m with bs := m.cap }, 0) else modelShrinkTail { m with bs := m.cap }
-      else modelShrinkTail m := by
-  unfold DecBuf.shrink modelShrinkTail
-  by_cases h : m.bs < m.cap
-  · simp only [h, decide_true, if_true, true_and]
-  · simp only [h, decide_false, if_false, false_and, Bool.false_eq_true]
-
-theorem shrinkTail_spec (b : DecoderBuffer) (h : DBWF b) :
-    ∃ b', shrinkTail b = Res.ok (b', ((modelShrinkTail (ofDB b)).2 : Int)) ∧
-      ofDB b' = (modelShrinkTail (ofDB b)).1 ∧ DBWF b' ∧
-      b'.DecoderConfig = b.DecoderConfig ∧ b'.Off = b.Off := by
-  obtain ⟨hd, hr0, ho0, hw0, hb0⟩ := h
-  have hd' : b.Data.len ≤ b.Data.arr.length := hd
-  unfold shrinkTail modelShrinkTail
-  have hl : (ofDB b).data.length = b.Data.len := data_length hd
-  obtain ⟨r, hrr⟩ : ∃ r : Nat, b.R = (r : Int) := ⟨b.R.toNat, by omega⟩
-  obtain ⟨w, hww⟩ : ∃ w : Nat, b.DecoderConfig.WindowSize = (w : Int) := ⟨b.DecoderConfig.WindowSize.toNat, by omega⟩
-  have hmr : (ofDB b).r = r := by simp only [ofDB]; omega
-  have hmw : (ofDB b).ws = w := by simp only [ofDB]; omega
-  rw [GenProps.gen_doz_toNat]
-  simp only [hl, hmr, hmw, hrr, hww, Int.ofNat_eq_natCast]
-  obtain ⟨d, hdd⟩ : ∃ d : Nat, d = Min.min (b.Data.len - w) r := ⟨_, rfl⟩
-  have hdelta : (if (r : Int) < ((((b.Data.len : Nat) : Int) - (w : Int)).toNat : Int) then (r : Int)
-      else ((((b.Data.len : Nat) : Int) - (w : Int)).toNat : Int)) = (d : Int) := by
-    split <;> omega
-  rw [hdelta, ← hdd]
-  by_cases hz : d = 0
-  · have hz' : (d : Int) = 0 := by omega
-    simp only [hz, hz', if_true]
-    exact ⟨b, rfl, rfl, ⟨hd, hr0, ho0, hw0, hb0⟩, rfl, rfl⟩
-  · have hz' : ¬ (d : Int) = 0 := by omega
-    simp only [hz, hz', if_false]
-    have hdl : d ≤ b.Data.len := by omega
-    rw [slice_ok _ _ _ hdl hd]
-    obtain ⟨hc, s', hs', hdat, hcap, hlen⟩ := shift_down b.Data hd d hdl
-    simp only [bind_ok, hc, hs']
-    refine ⟨_, rfl, ?_, ⟨by show s'.len ≤ s'.arr.length; omega, by show (0:Int) ≤ (r:Int) - (d:Int); omega, ho0, hw0, hb0⟩, rfl, rfl⟩
-    simp only [ofDB, hdat, Slice.cap, hcap]
-    congr 1
-    omega
-
-/-- D05 `shrink(g)` (for every `g`, also negative: the model is called with `g.toNat`) -/
-theorem gen_dbuf_shrink (b : DecoderBuffer) (h : DBWF b) (g : Int) :
-    ∃ b', DecoderBuffer_shrink b g = Res.ok (b', ((DecBuf.shrink (ofDB b) g.toNat).2 : Int)) ∧
-      ofDB b' = (DecBuf.shrink (ofDB b) g.toNat).1 ∧ DBWF b' ∧
-      b'.DecoderConfig.WindowSize = b.DecoderConfig.WindowSize ∧ b'.Off = b.Off := by
-  have hwf := h
-  obtain ⟨hd, hr0, ho0, hw0, hb0⟩ := h
-  rw [gen_shrink_unfold, model_shrink_unfold]
-  simp only [Int.ofNat_eq_natCast, Slice.cap]
-  have hcap : (ofDB b).cap = b.Data.arr.length := rfl
-  have hbs : (ofDB b).bs = b.DecoderConfig.BufferSize.toNat := rfl
-  rw [hcap, hbs]
-  by_cases h1 : b.DecoderConfig.BufferSize < (b.Data.arr.length : Int)
-  · have h1' : b.DecoderConfig.BufferSize.toNat < b.Data.arr.length := by omega
-    simp only [h1, h1', if_true]
-    have hwf1 : DBWF { b with DecoderConfig := { b.DecoderConfig with BufferSize := (b.Data.arr.length : Int) } } :=
-      ⟨hd, hr0, ho0, hw0, by show (0:Int) ≤ (b.Data.arr.length : Int); omega⟩
-    have hof1 : ofDB { b with DecoderConfig := { b.DecoderConfig with BufferSize := (b.Data.arr.length : Int) } }
-        = { ofDB b with bs := b.Data.arr.length } := by
-      simp only [ofDB, Int.toNat_natCast, Slice.cap]
-    by_cases h2 : g ≤ (b.Data.arr.length : Int)
-    · have h2' : g.toNat ≤ b.Data.arr.length := by omega
-      simp only [h2, h2', if_true]
-      exact ⟨_, rfl, hof1, hwf1, rfl, rfl⟩
-    · have h2' : ¬ g.toNat ≤ b.Data.arr.length := by omega
-      simp only [h2, h2', if_false]
-      obtain ⟨b', e1, e2, e3, e4, e5⟩ := shrinkTail_spec _ hwf1
-      rw [hof1] at e1 e2
-      exact ⟨b', e1, e2, e3, by rw [e4], e5⟩
-  · have h1' : ¬ b.DecoderConfig.BufferSize.toNat < b.Data.arr.length := by omega
-    simp only [h1, h1', if_false]
-    obtain ⟨b', e1, e2, e3, e4, e5⟩ := shrinkTail_spec _ hwf
-    exact ⟨b', e1, e2, e3, by rw [e4], e5⟩
-
-
-theorem model_shrink_delta_le (m : DecBuf) (g : Nat) : (DecBuf.shrink m g).2 ≤ m.data.length := by
-  rw [model_shrink_unfold]
-  unfold modelShrinkTail
-  by_cases h1 : m.bs < m.cap <;> by_cases h2 : g ≤ m.cap <;> simp only [h1, h2, if_true, if_false] <;>
-    (try split) <;> (try dsimp only) <;> omega
-
-/-- `b.Data = append(b.Data, bs...)` is the model's `append` -/
-theorem db_append (g : Nat → Nat → Nat) (hg : GrowOK g) (b : DecoderBuffer) (hd : SWF b.Data) (bs : List UInt8) :
-    ofDB { b with Data := Slice.append g b.Data bs } = DecBuf.append g (ofDB b) bs ∧
-    SWF (Slice.append g b.Data bs) ∧ (Slice.append g b.Data bs).len = b.Data.len + bs.length := by
-  obtain ⟨had, hal, haa⟩ := append_spec g b.Data hd bs
-  have hl : (ofDB b).data.length = b.Data.len := data_length hd
-  have hd' : b.Data.len ≤ b.Data.arr.length := hd
-  refine ⟨?_, ?_, hal⟩
-  · unfold DecBuf.append
-    simp only [hl]
-    simp only [ofDB, had, Slice.cap, haa]
-    congr 1
-    by_cases hc : b.Data.len + bs.length ≤ b.Data.arr.length
-    · simp only [hc, if_true]
-    · simp only [hc, if_false]
-      have := hg b.Data.arr.length (b.Data.len + bs.length); omega
-  · show (Slice.append g b.Data bs).len ≤ (Slice.append g b.Data bs).arr.length
-    rw [hal, haa]
-    by_cases hc : b.Data.len + bs.length ≤ b.Data.arr.length
-    · simp only [hc, if_true]
-    · simp only [hc, if_false]; omega
-
-/-- D06 `WriteByte(c)` -/
-theorem gen_dbuf_writeByte (g : Nat → Nat → Nat) (hg : GrowOK g) (b : DecoderBuffer) (h : DBWF b) (c : UInt8) :
-    ∃ b' e, DecoderBuffer_WriteByte g b c = Res.ok (b', e) ∧ ofDB b' = (DecBuf.writeByte g (ofDB b) c).1 ∧
-      errOf e = some (DecBuf.writeByte g (ofDB b) c).2 ∧ DBWF b' := by
-  have hwf := h
-  obtain ⟨hd, hr0, ho0, hw0, hb0⟩ := h
-  have hl : (ofDB b).data.length = b.Data.len := data_length hd
-  unfold DecoderBuffer_WriteByte DecBuf.writeByte
-  simp only [hl, Int.ofNat_eq_natCast]
-  -- the last step: append and advance Off
-  have fin : ∀ (b' : DecoderBuffer), DBWF b' →
-      ofDB { b' with Data := Slice.append g b'.Data [c], Off := b'.Off + 1 }
-        = { (DecBuf.append g (ofDB b') [c]) with off := (ofDB b').off + 1 } ∧
-      DBWF { b' with Data := Slice.append g b'.Data [c], Off := b'.Off + 1 } := by
-    intro b' hwf'
-    obtain ⟨hd2, hr2, ho2, hw2, hb2⟩ := hwf'
-    obtain ⟨e1, e2, _⟩ := db_append g hg b' hd2 [c]
-    refine ⟨?_, ⟨e2, hr2, by show (0:Int) ≤ b'.Off + 1; omega, hw2, hb2⟩⟩
-    rw [← e1]
-    simp only [ofDB]
-    congr 1
-    omega
-  by_cases h1 : (b.Data.len : Int) + 1 > b.DecoderConfig.BufferSize
-  · have h1' : b.Data.len + 1 > (ofDB b).bs := by simp only [ofDB]; omega
-    simp only [h1, h1', if_true]
-    obtain ⟨b', e1, e2, e3, _, _⟩ := gen_dbuf_shrink b hwf ((b.Data.len : Int) + 1)
-    have hto : ((b.Data.len : Int) + 1).toNat = b.Data.len + 1 := by omega
-    rw [hto] at e1 e2
-    have hdl := model_shrink_delta_le (ofDB b) (b.Data.len + 1)
-    rw [hl] at hdl
-    rw [e1]
-    simp only [bind_ok]
-    have hbs' : (DecBuf.shrink (ofDB b) (b.Data.len + 1)).1.bs = b'.DecoderConfig.BufferSize.toNat := by
-      rw [← e2]; rfl
-    have hb0' := e3.bs
-    by_cases h2 : (b.Data.len : Int) + 1 - ((DecBuf.shrink (ofDB b) (b.Data.len + 1)).2 : Int) > b'.DecoderConfig.BufferSize
-    · have h2' : b.Data.len + 1 - (DecBuf.shrink (ofDB b) (b.Data.len + 1)).2 > (DecBuf.shrink (ofDB b) (b.Data.len + 1)).1.bs := by
-        rw [hbs']; omega
-      simp only [h2, h2', if_true]
-      exact ⟨_, _, rfl, e2, errOf_full, e3⟩
-    · have h2' : ¬ b.Data.len + 1 - (DecBuf.shrink (ofDB b) (b.Data.len + 1)).2 > (DecBuf.shrink (ofDB b) (b.Data.len + 1)).1.bs := by
-        rw [hbs']; omega
-      simp only [h2, h2', if_false]
-      obtain ⟨f1, f2⟩ := fin b' e3
-      rw [← e2]
-      exact ⟨_, _, rfl, f1, errOf_ok, f2⟩
-  · have h1' : ¬ b.Data.len + 1 > (ofDB b).bs := by simp only [ofDB]; omega
-    simp only [h1, h1', if_false]
-    obtain ⟨f1, f2⟩ := fin b hwf
-    exact ⟨_, _, rfl, f1, errOf_ok, f2⟩
-
-/-- D07 `Write(p)` -/
-theorem gen_dbuf_write (g : Nat → Nat → Nat) (hg : GrowOK g) (b : DecoderBuffer) (h : DBWF b) (p : Slice) (hp : SWF p) :
-    ∃ b' e, DecoderBuffer_Write g b p = Res.ok (b', ((DecBuf.write g (ofDB b) p.data).2.1 : Int), e) ∧
-      ofDB b' = (DecBuf.write g (ofDB b) p.data).1 ∧
-      errOf e = some (DecBuf.write g (ofDB b) p.data).2.2 ∧ DBWF b' := by
-  have hwf := h
-  obtain ⟨hd, hr0, ho0, hw0, hb0⟩ := h
-  have hl : (ofDB b).data.length = b.Data.len := data_length hd
-  have hpl : p.data.length = p.len := data_length hp
-  unfold DecoderBuffer_Write DecBuf.write
-  simp only [hl, hpl, Int.ofNat_eq_natCast]
-  have fin : ∀ (b' : DecoderBuffer), DBWF b' →
-      ofDB { b' with Data := Slice.append g b'.Data p.data, Off := b'.Off + (p.len : Int) }
-        = { (DecBuf.append g (ofDB b') p.data) with off := (ofDB b').off + p.len } ∧
-      DBWF { b' with Data := Slice.append g b'.Data p.data, Off := b'.Off + (p.len : Int) } := by
-    intro b' hwf'
-    obtain ⟨hd2, hr2, ho2, hw2, hb2⟩ := hwf'
-    obtain ⟨e1, e2, _⟩ := db_append g hg b' hd2 p.data
-    refine ⟨?_, ⟨e2, hr2, by show (0:Int) ≤ b'.Off + (p.len : Int); omega, hw2, hb2⟩⟩
-    rw [← e1]
-    simp only [ofDB]
-    congr 1
-    omega
-  by_cases h1 : (b.Data.len : Int) + (p.len : Int) > b.DecoderConfig.BufferSize
-  · have h1' : b.Data.len + p.len > (ofDB b).bs := by simp only [ofDB]; omega
-    simp only [h1, h1', if_true]
-    obtain ⟨b', e1, e2, e3, _, _⟩ := gen_dbuf_shrink b hwf ((b.Data.len : Int) + (p.len : Int))
-    have hto : ((b.Data.len : Int) + (p.len : Int)).toNat = b.Data.len + p.len := by omega
-    rw [hto] at e1 e2
-    have hdl := model_shrink_delta_le (ofDB b) (b.Data.len + p.len)
-    rw [hl] at hdl
-    rw [e1]
-    simp only [bind_ok]
-    have hbs' : (DecBuf.shrink (ofDB b) (b.Data.len + p.len)).1.bs = b'.DecoderConfig.BufferSize.toNat := by
-      rw [← e2]; rfl
-    have hb0' := e3.bs
-    by_cases h2 : (b.Data.len : Int) + (p.len : Int) - ((DecBuf.shrink (ofDB b) (b.Data.len + p.len)).2 : Int) > b'.DecoderConfig.BufferSize
-    · have h2' : b.Data.len + p.len - (DecBuf.shrink (ofDB b) (b.Data.len + p.len)).2 > (DecBuf.shrink (ofDB b) (b.Data.len + p.len)).1.bs := by
-        rw [hbs']; omega
-      simp only [h2, h2', if_true]
-      exact ⟨_, _, rfl, e2, errOf_full, e3⟩
-    · have h2' : ¬ b.Data.len + p.len - (DecBuf.shrink (ofDB b) (b.Data.len + p.len)).2 > (DecBuf.shrink (ofDB b) (b.Data.len + p.len)).1.bs := by
-        rw [hbs']; omega
-      simp only [h2, h2', if_false]
-      obtain ⟨f1, f2⟩ := fin b' e3
-      rw [← e2]
-      exact ⟨_, _, rfl, f1, errOf_ok, f2⟩
-  · have h1' : ¬ b.Data.len + p.len > (ofDB b).bs := by simp only [ofDB]; omega
-    simp only [h1, h1', if_false]
-    obtain ⟨f1, f2⟩ := fin b hwf
-    exact ⟨_, _, rfl, f1, errOf_ok, f2⟩
-
-
-/-- the copy of a match after the space check (loop, then the remainder) -/
-def matchTail (grow : Nat → Nat → Nat) (fuel : Nat) (b : DecoderBuffer) (_m : Int) (off0 : Int) :
-    Res (DecoderBuffer × Int × Gen.Err) :=
-  Res.bind (DecoderBuffer_WriteMatch_loop_1 grow fuel b _m off0) fun r =>
-    Res.bind (Slice.slice r.1.Data ((Int.ofNat r.1.Data.len) - r.2.2) ((Int.ofNat r.1.Data.len) - r.2.2 + r.2.1)) fun t =>
-    Res.ok ({ r.1 with Data := Slice.append grow r.1.Data t.data, Off := r.1.Off + _m }, _m, Gen.Err.ok)
-
-theorem gen_writeMatch_unfold (grow : Nat → Nat → Nat) (fuel : Nat) (b : DecoderBuffer) (m o : UInt32) :
-    DecoderBuffer_WriteMatch grow fuel b m o =
-      if (o = 0) ∧ (m > 0) then Res.ok (b, (0 : Int), errOffset)
-      else if (Int.ofNat o.toNat) >
-          (if Int.ofNat b.Data.len > b.DecoderConfig.WindowSize then b.DecoderConfig.WindowSize else Int.ofNat b.Data.len) then
-        Res.ok (b, (0 : Int), errOffset)
-      else if Int.ofNat m.toNat > b.DecoderConfig.BufferSize - (Int.ofNat b.Data.len) then
-        Res.bind (DecoderBuffer_shrink b (Int.ofNat m.toNat + (Int.ofNat b.Data.len))) fun r_1 =>
-          if Int.ofNat m.toNat > r_1.1.DecoderConfig.BufferSize - (Int.ofNat r_1.1.Data.len) then
-            if Int.ofNat m.toNat > (r_1.1.DecoderConfig.BufferSize - r_1.1.DecoderConfig.WindowSize) then
-              Res.ok (r_1.1, (0 : Int), errMatchLen)
-            else Res.ok (r_1.1, (0 : Int), ErrFullBuffer)
-          else matchTail grow fuel r_1.1 (Int.ofNat m.toNat) (Int.ofNat o.toNat)
-      else matchTail grow fuel b (Int.ofNat m.toNat) (Int.ofNat o.toNat) := rfl
-
-theorem loop_unfold (grow : Nat → Nat → Nat) (fuel : Nat) (b : DecoderBuffer) (n off : Int) :
-    DecoderBuffer_WriteMatch_loop_1 grow (fuel + 1) b n off =
-      if n > off then
-        Res.bind (Slice.slice b.Data ((Int.ofNat b.Data.len) - off) (Int.ofNat b.Data.len)) fun t =>
-          if n - off ≤ off then Res.ok ({ b with Data := Slice.append grow b.Data t.data }, n - off, off)
-          else DecoderBuffer_WriteMatch_loop_1 grow fuel { b with Data := Slice.append grow b.Data t.data } (n - off) (off * (2 : Int) ^ 1)
-      else Res.ok (b, n, off) := rfl
-
-theorem model_loop_unfold (g : Grow) (m : DecBuf) (n off : Nat) :
-    DecBuf.copyLoop g m n off =
-      if n > off ∧ off > 0 then
-        if n - off ≤ off then (m.append g (m.data.drop (m.data.length - off)), n - off, off)
-        else DecBuf.copyLoop g (m.append g (m.data.drop (m.data.length - off))) (n - off) (off * 2)
-      else (m, n, off) := by
-  rw [DecBuf.copyLoop]
-  by_cases h : n > off ∧ off > 0
-  · simp only [h, and_self, dite_true, if_true]
-  · simp only [h, dite_false, if_false]
-
-/-- the doubling loop: with `0 < off ≤ len(Data)` and fuel above `n` the generated loop neither
-    panics nor runs out of fuel, and is the model's `copyLoop` -/
-theorem loop_spec (g : Nat → Nat → Nat) (hg : GrowOK g) :
-    ∀ (fuel : Nat) (b : DecoderBuffer) (n off : Nat), SWF b.Data → 0 < off → off ≤ b.Data.len → n < fuel →
-    ∃ b', DecoderBuffer_WriteMatch_loop_1 g fuel b (n : Int) (off : Int) =
-        Res.ok (b', ((DecBuf.copyLoop g (ofDB b) n off).2.1 : Int), ((DecBuf.copyLoop g (ofDB b) n off).2.2 : Int)) ∧
-      ofDB b' = (DecBuf.copyLoop g (ofDB b) n off).1 ∧ SWF b'.Data ∧
-      b'.R = b.R ∧ b'.Off = b.Off ∧ b'.DecoderConfig = b.DecoderConfig ∧
-      ((DecBuf.copyLoop g (ofDB b) n off).2.2 ≤ b'.Data.len) ∧
-      ((DecBuf.copyLoop g (ofDB b) n off).2.1 ≤ (DecBuf.copyLoop g (ofDB b) n off).2.2) := by
-  intro fuel
-  induction fuel with
-  | zero => intro b n off _ _ _ hf; omega
-  | succ fuel ih =>
-    intro b n off hd h0 hol hf
-    have hd' : b.Data.len ≤ b.Data.arr.length := hd
-    rw [loop_unfold, model_loop_unfold]
-    by_cases hn : n > off
-    · have hn' : (n : Int) > (off : Int) := by omega
-      have hn'' : n > off ∧ off > 0 := ⟨hn, h0⟩
-      simp only [hn', hn'', and_self, if_true, Int.ofNat_eq_natCast]
-      have hsub : (b.Data.len : Int) - (off : Int) = ((b.Data.len - off : Nat) : Int) := by omega
-      rw [hsub, slice_ok _ _ _ (by omega) hd]
-      simp only [bind_ok]
-      have ht : ({ arr := List.drop (b.Data.len - off) b.Data.arr, len := b.Data.len - (b.Data.len - off) } : Slice).data
-          = (ofDB b).data.drop ((ofDB b).data.length - off) := by
-        have hl : (ofDB b).data.length = b.Data.len := data_length hd
-        rw [hl]
-        simp only [Slice.data, ofDB, List.drop_take]
-      rw [ht]
-      obtain ⟨a1, a2, a3⟩ := db_append g hg b hd ((ofDB b).data.drop ((ofDB b).data.length - off))
-      have hdl : ((ofDB b).data.drop ((ofDB b).data.length - off)).length = off := by
-        have hl : (ofDB b).data.length = b.Data.len := data_length hd
-        simp only [List.length_drop, hl]; omega
-      rw [hdl] at a3
-      by_cases h2 : n - off ≤ off
-      · have h2' : (n : Int) - (off : Int) ≤ (off : Int) := by omega
-        have hc : (n : Int) - (off : Int) = ((n - off : Nat) : Int) := by omega
-        rw [if_pos h2, if_pos h2', hc]
-        refine ⟨_, rfl, a1, a2, rfl, rfl, rfl, ?_, h2⟩
-        show off ≤ (Slice.append g b.Data _).len
-        rw [a3]; omega
-      · have h2' : ¬ (n : Int) - (off : Int) ≤ (off : Int) := by omega
-        simp only [h2, h2', if_false]
-        have hc : (n : Int) - (off : Int) = ((n - off : Nat) : Int) := by omega
-        have hc2 : (off : Int) * (2 : Int) ^ 1 = ((off * 2 : Nat) : Int) := by
-          rw [Int.pow_succ, Int.pow_zero]; omega
-        rw [hc, hc2]
-        obtain ⟨b', e1, e2, e3, e4, e5, e6, e7, e8⟩ :=
-          ih { b with Data := Slice.append g b.Data ((ofDB b).data.drop ((ofDB b).data.length - off)) } (n - off) (off * 2)
-            a2 (by omega) (by show off * 2 ≤ (Slice.append g b.Data _).len; rw [a3]; omega) (by omega)
-        rw [a1] at e1 e2 e7 e8
-        exact ⟨b', e1, e2, e3, e4, e5, e6, e7, e8⟩
-    · have hn' : ¬ (n : Int) > (off : Int) := by omega
-      have hn'' : ¬ (n > off ∧ off > 0) := by omega
-      simp only [hn', hn'', if_false]
-      exact ⟨b, rfl, rfl, hd, rfl, rfl, rfl, hol, by omega⟩
-
-
-theorem u32_eq_zero (o : UInt32) : o = 0 ↔ o.toNat = 0 :=
-  ⟨fun h => by rw [h]; rfl, fun h => UInt32.toNat_inj.mp (by rw [h]; rfl)⟩
-
-theorem u32_pos (m : UInt32) : m > 0 ↔ m.toNat > 0 := by
-  show 0 < m ↔ _
-  rw [UInt32.lt_iff_toNat_lt]; rfl
-
-theorem slice_data (s : Slice) (_hs : SWF s) (i j : Nat) (hij : i ≤ j) (hj : j ≤ s.len) :
-    ({ arr := s.arr.drop i, len := j - i } : Slice).data = (s.data.drop i).take (j - i) := by
-  simp only [Slice.data, List.drop_take, List.take_take]
-  congr 1
-  omega
-
-theorem model_shrink_facts (m : DecBuf) (g : Nat) :
-    (DecBuf.shrink m g).1.data.length ≤ m.data.length ∧ m.bs ≤ (DecBuf.shrink m g).1.bs ∧
-    Min.min m.data.length m.ws ≤ (DecBuf.shrink m g).1.data.length ∧
-    (DecBuf.shrink m g).1.ws = m.ws ∧ (DecBuf.shrink m g).1.off = m.off := by
-  rw [model_shrink_unfold]
-  unfold modelShrinkTail
-  by_cases h1 : m.bs < m.cap <;> by_cases h2 : g ≤ m.cap <;> simp only [h1, h2, if_true, if_false] <;>
-    (try split) <;> (try dsimp only) <;> (try simp only [List.length_drop]) <;>
-    exact ⟨by omega, by omega, by omega, trivial, trivial⟩
-
-theorem matchTail_spec (g : Nat → Nat → Nat) (hg : GrowOK g) (fuel : Nat) (b : DecoderBuffer) (h : DBWF b)
-    (m o : Nat) (hf : m < fuel) (ho : o ≤ b.Data.len) (hom : o = 0 → m = 0) :
-    ∃ b', matchTail g fuel b (m : Int) (o : Int) = Res.ok (b', (m : Int), Gen.Err.ok) ∧
-      ofDB b' = { (DecBuf.copyMatch g (ofDB b) m o) with off := (ofDB b).off + m } ∧ DBWF b' ∧
-      b'.DecoderConfig = b.DecoderConfig ∧ b'.Data.len = b.Data.len + m := by
-  suffices hmain : ∃ b', matchTail g fuel b (m : Int) (o : Int) = Res.ok (b', (m : Int), Gen.Err.ok) ∧
-      ofDB b' = { (DecBuf.copyMatch g (ofDB b) m o) with off := (ofDB b).off + m } ∧ DBWF b' ∧
-      b'.DecoderConfig = b.DecoderConfig by
-    obtain ⟨b', f1, f2, f3, f4⟩ := hmain
-    refine ⟨b', f1, f2, f3, f4, ?_⟩
-    have hcl := DecBuf.copyMatch_length g (ofDB b) m o (by
-      have : (ofDB b).data.length = b.Data.len := data_length h.data
-      rw [this]; omega)
-    have h1 : (ofDB b').data.length = b'.Data.len := data_length f3.data
-    have h2 : (ofDB b).data.length = b.Data.len := data_length h.data
-    rw [← h1, f2, ← h2]
-    exact hcl
-  obtain ⟨hd, hr0, ho0, hw0, hb0⟩ := h
-  have hd' : b.Data.len ≤ b.Data.arr.length := hd
-  unfold matchTail DecBuf.copyMatch
-  -- the state after the loop
-  have key : ∃ b1, DecoderBuffer_WriteMatch_loop_1 g fuel b (m : Int) (o : Int) =
-        Res.ok (b1, ((DecBuf.copyLoop g (ofDB b) m o).2.1 : Int), ((DecBuf.copyLoop g (ofDB b) m o).2.2 : Int)) ∧
-      ofDB b1 = (DecBuf.copyLoop g (ofDB b) m o).1 ∧ SWF b1.Data ∧
-      b1.R = b.R ∧ b1.Off = b.Off ∧ b1.DecoderConfig = b.DecoderConfig ∧
-      ((DecBuf.copyLoop g (ofDB b) m o).2.2 ≤ b1.Data.len) ∧
-      ((DecBuf.copyLoop g (ofDB b) m o).2.1 ≤ (DecBuf.copyLoop g (ofDB b) m o).2.2) := by
-    by_cases ho0' : o = 0
-    · have hm0 := hom ho0'
-      subst ho0'; subst hm0
-      obtain ⟨f, rfl⟩ : ∃ f, fuel = f + 1 := ⟨fuel - 1, by omega⟩
-      rw [loop_unfold, model_loop_unfold]
-      simp only [Int.natCast_zero, gt_iff_lt, Int.lt_irrefl, if_false, Nat.lt_irrefl, false_and]
-      exact ⟨b, rfl, rfl, hd, rfl, rfl, rfl, Nat.zero_le _, Nat.le_refl _⟩
-    · exact loop_spec g hg fuel b m o hd (by omega) ho hf
-  obtain ⟨b1, e1, e2, e3, e4, e5, e6, e7, e8⟩ := key
-  rw [e1]
-  simp only [bind_ok, Int.ofNat_eq_natCast]
-  have e3' : b1.Data.len ≤ b1.Data.arr.length := e3
-  have hl1 : (ofDB b1).data.length = b1.Data.len := data_length e3
-  rw [← e2]
-  -- abbreviations for the loop results
-  generalize (DecBuf.copyLoop g (ofDB b) m o).2.1 = n1 at *
-  generalize (DecBuf.copyLoop g (ofDB b) m o).2.2 = off1 at *
-  have hj : (b1.Data.len : Int) - (off1 : Int) = ((b1.Data.len - off1 : Nat) : Int) := by omega
-  have hjn : ((b1.Data.len - off1 : Nat) : Int) + (n1 : Int) = ((b1.Data.len - off1 + n1 : Nat) : Int) := by omega
-  rw [hj, hjn, slice_ok _ _ _ (by omega) (by omega)]
-  simp only [bind_ok]
-  rw [slice_data _ e3 _ _ (by omega) (by omega)]
-  have hsub : b1.Data.len - off1 + n1 - (b1.Data.len - off1) = n1 := by omega
-  rw [hsub]
-  obtain ⟨a1, a2, a3⟩ := db_append g hg b1 e3 ((b1.Data.data.drop (b1.Data.len - off1)).take n1)
-  refine ⟨_, rfl, ?_, ⟨a2, by rw [e4]; exact hr0, by show (0:Int) ≤ b1.Off + (m:Int); rw [e5]; omega, by rw [e6]; exact hw0, by rw [e6]; exact hb0⟩, e6⟩
-  simp only [hl1]
-  have hdd : (ofDB b1).data = b1.Data.data := rfl
-  rw [hdd, ← a1]
-  simp only [ofDB, e4, e5, e6]
-  congr 1
-  omega
-
-
-/-- D08 `WriteMatch(m, o)`: for every fuel above `m` the generated function neither panics nor
-    runs out of fuel and agrees with the model.  `len(Data) ≤ BufferSize` is the buffer invariant
-    the model's natural-number subtraction `bs - len` relies on. -/
-theorem gen_dbuf_writeMatch (g : Nat → Nat → Nat) (hg : GrowOK g) (fuel : Nat) (b : DecoderBuffer) (h : DBWF b)
-    (hlen : (b.Data.len : Int) ≤ b.DecoderConfig.BufferSize) (m o : UInt32) (hf : m.toNat < fuel) :
-    ∃ b' e, DecoderBuffer_WriteMatch g fuel b m o =
-        Res.ok (b', ((DecBuf.writeMatch g (ofDB b) m.toNat o.toNat).2.1 : Int), e) ∧
-      ofDB b' = (DecBuf.writeMatch g (ofDB b) m.toNat o.toNat).1 ∧
-      errOf e = some (DecBuf.writeMatch g (ofDB b) m.toNat o.toNat).2.2 ∧ DBWF b' ∧
-      (b'.Data.len : Int) ≤ b'.DecoderConfig.BufferSize := by
-  have hwf := h
-  obtain ⟨hd, hr0, ho0, hw0, hb0⟩ := h
-  have hl : (ofDB b).data.length = b.Data.len := data_length hd
-  obtain ⟨W, hW⟩ : ∃ W : Nat, b.DecoderConfig.WindowSize = (W : Int) := ⟨_, (Int.toNat_of_nonneg hw0).symm⟩
-  obtain ⟨B, hB⟩ : ∃ B : Nat, b.DecoderConfig.BufferSize = (B : Int) := ⟨_, (Int.toNat_of_nonneg hb0).symm⟩
-  have hmw : (ofDB b).ws = W := by simp only [ofDB]; omega
-  have hmb : (ofDB b).bs = B := by simp only [ofDB]; omega
-  rw [gen_writeMatch_unfold]
-  unfold DecBuf.writeMatch
-  simp only [hl, hmw, hmb, hW, hB, Int.ofNat_eq_natCast, u32_eq_zero, u32_pos]
-  generalize m.toNat = M at *
-  generalize o.toNat = O at *
-  by_cases h1 : O = 0 ∧ M > 0
-  · simp only [h1, and_self, if_true]
-    exact ⟨_, _, rfl, rfl, errOf_offset, hwf, hlen⟩
-  · simp only [h1, if_false]
-    have hwin : (if (b.Data.len : Int) > (W : Int) then (W : Int) else (b.Data.len : Int)) = ((Min.min b.Data.len W : Nat) : Int) := by
-      split <;> omega
-    rw [hwin]
-    by_cases h2 : O > Min.min b.Data.len W
-    · have h2' : (O : Int) > ((Min.min b.Data.len W : Nat) : Int) := by omega
-      simp only [h2, h2', if_true]
-      exact ⟨_, _, rfl, rfl, errOf_offset, hwf, hlen⟩
-    · have h2' : ¬ (O : Int) > ((Min.min b.Data.len W : Nat) : Int) := by omega
-      simp only [h2, h2', if_false]
-      rw [hB] at hlen
-      by_cases h3 : M > B - b.Data.len
-      · have h3' : (M : Int) > (B : Int) - (b.Data.len : Int) := by omega
-        simp only [h3, h3', if_true]
-        obtain ⟨b', e1, e2, e3, e4, e5⟩ := gen_dbuf_shrink b hwf ((M : Int) + (b.Data.len : Int))
-        have hto : ((M : Int) + (b.Data.len : Int)).toNat = M + b.Data.len := by omega
-        rw [hto] at e1 e2
-        obtain ⟨s1, s2, s3, s4, s5⟩ := model_shrink_facts (ofDB b) (M + b.Data.len)
-        rw [e1]
-        simp only [bind_ok]
-        have hl' : (DecBuf.shrink (ofDB b) (M + b.Data.len)).1.data.length = b'.Data.len := by
-          rw [← e2]; exact data_length e3.data
-        have hbs' : (DecBuf.shrink (ofDB b) (M + b.Data.len)).1.bs = b'.DecoderConfig.BufferSize.toNat := by
-          rw [← e2]; rfl
-        have hws' : (DecBuf.shrink (ofDB b) (M + b.Data.len)).1.ws = b'.DecoderConfig.WindowSize.toNat := by
-          rw [← e2]; rfl
-        have hb0' := e3.bs
-        have hw0' := e3.ws
-        simp only [hl, hmb, hmw, hl', hbs'] at s1 s2 s3
-        have hlen' : (b'.Data.len : Int) ≤ b'.DecoderConfig.BufferSize := by omega
-        by_cases h4 : M ≤ (DecBuf.shrink (ofDB b) (M + b.Data.len)).1.bs - (DecBuf.shrink (ofDB b) (M + b.Data.len)).1.data.length
-        · have h4' : ¬ (M : Int) > b'.DecoderConfig.BufferSize - (b'.Data.len : Int) := by
-            rw [hbs', hl'] at h4; omega
-          simp only [h4, h4', decide_true, not_true_eq_false, if_false]
-          obtain ⟨b2, f1, f2, f3, f4, f5⟩ := matchTail_spec g hg fuel b' e3 M O hf (by omega) (by omega)
-          rw [f1]
-          refine ⟨_, _, rfl, ?_, errOf_ok, f3, ?_⟩
-          · rw [f2, e2]
-          · rw [f4, f5]; omega
-        · have h4' : (M : Int) > b'.DecoderConfig.BufferSize - (b'.Data.len : Int) := by
-            rw [hbs', hl'] at h4; omega
-          simp only [h4, h4', decide_false, Bool.false_eq_true, not_false_eq_true, if_true]
-          by_cases h5 : M > (DecBuf.shrink (ofDB b) (M + b.Data.len)).1.bs - (DecBuf.shrink (ofDB b) (M + b.Data.len)).1.ws
-          · have h5' : (M : Int) > b'.DecoderConfig.BufferSize - b'.DecoderConfig.WindowSize := by
-              rw [hbs', hws'] at h5; omega
-            simp only [h5, h5', if_true]
-            exact ⟨_, _, rfl, e2, errOf_matchLen, e3, hlen'⟩
-          · have h5' : ¬ (M : Int) > b'.DecoderConfig.BufferSize - b'.DecoderConfig.WindowSize := by
-              rw [hbs', hws'] at h5; omega
-            simp only [h5, h5', if_false]
-            exact ⟨_, _, rfl, e2, errOf_full, e3, hlen'⟩
-      · have h3' : ¬ (M : Int) > (B : Int) - (b.Data.len : Int) := by omega
-        simp only [h3, h3', if_false, not_true_eq_false]
-        obtain ⟨b2, f1, f2, f3, f4, f5⟩ := matchTail_spec g hg fuel b hwf M O hf (by omega) (by omega)
-        rw [f1]
-        refine ⟨_, _, rfl, f2, errOf_ok, f3, ?_⟩
-        rw [f4, f5, hB]; omega
-
-
-/-- the state outside of the invariant `len(Data) ≤ BufferSize` on which code and model differ -/
-def discrB : DecoderBuffer :=
-  { Data := { arr := [1, 2, 3, 4, 5], len := 5 }, R := 0, Off := 5, DecoderConfig := { WindowSize := 1, BufferSize := 4 } }
-
-/-- `WriteMatch(0, 0)` with `len(Data) = 5 > BufferSize = 4` (reachable only by assigning the public
-    fields): the Go code calls `shrink`, which raises `BufferSize` to `cap(Data) = 5`; the model
-    (natural-number subtraction `bs - len = 0`, `0 > 0` false) leaves `bs = 4`.  Hence the hypothesis
-    `len(Data) ≤ BufferSize` of D08/D09. -/
-theorem writeMatch_discrepancy (g : Nat → Nat → Nat) :
-    (∃ b', DecoderBuffer_WriteMatch g 1 discrB 0 0 = Res.ok (b', 0, Gen.Err.ok) ∧ (ofDB b').bs = 5) ∧
-    (DecBuf.writeMatch g (ofDB discrB) 0 0).1.bs = 4 ∧ (DecBuf.writeMatch g (ofDB discrB) 0 0).2.2 = .ok := by
-  refine ⟨⟨_, rfl, rfl⟩, ?_, ?_⟩ <;>
-  · have h1 : (DecBuf.writeMatch g (ofDB discrB) 0 0).1.bs = 4 ∧ (DecBuf.writeMatch g (ofDB discrB) 0 0).2.2 = .ok := by
-      unfold DecBuf.writeMatch
-      simp [ofDB, discrB, Slice.data, DecBuf.copyMatch_def, DecBuf.copyLoop_zero, DecBuf.append]
-    first | exact h1.1 | exact h1.2
-
-
-/-! ### WriteBlock -/
-
-/-- the two copies of the doubling loop (in `WriteMatch` and in `WriteBlock`) are the same function -/
-theorem wb_loop2_eq (g : Nat → Nat → Nat) : ∀ (fuel : Nat) (b : DecoderBuffer) (n off : Int),
-    DecoderBuffer_WriteBlock_loop_2 g fuel b n off = DecoderBuffer_WriteMatch_loop_1 g fuel b n off := by
-  intro fuel
-  induction fuel with
-  | zero => intro b n off; rfl
-  | succ f ih =>
-    intro b n off
-    unfold DecoderBuffer_WriteBlock_loop_2 DecoderBuffer_WriteMatch_loop_1
-    simp only [ih]
-
-/-- the copy of a match, with the rest of the computation as a continuation -/
-def copyTail {α : Type} (grow : Nat → Nat → Nat) (fuel : Nat) (b : DecoderBuffer) (m : Int) (off0 : Int)
-    (kont : DecoderBuffer → Res α) : Res α :=
-  Res.bind (DecoderBuffer_WriteMatch_loop_1 grow fuel b m off0) fun r =>
-    Res.bind (Slice.slice r.1.Data ((Int.ofNat r.1.Data.len) - r.2.2) ((Int.ofNat r.1.Data.len) - r.2.2 + r.2.1)) fun t =>
-    kont { r.1 with Data := Slice.append grow r.1.Data t.data }
-
-/-- `loop_spec` including the case `o = 0` (then `m = 0` and the loop does nothing) -/
-theorem loop_spec0 (g : Nat → Nat → Nat) (hg : GrowOK g) (fuel : Nat) (b : DecoderBuffer) (hd : SWF b.Data)
-    (m o : Nat) (hf : m < fuel) (ho : o ≤ b.Data.len) (hom : o = 0 → m = 0) :
-    ∃ b1, DecoderBuffer_WriteMatch_loop_1 g fuel b (m : Int) (o : Int) =
-        Res.ok (b1, ((DecBuf.copyLoop g (ofDB b) m o).2.1 : Int), ((DecBuf.copyLoop g (ofDB b) m o).2.2 : Int)) ∧
-      ofDB b1 = (DecBuf.copyLoop g (ofDB b) m o).1 ∧ SWF b1.Data ∧
-      b1.R = b.R ∧ b1.Off = b.Off ∧ b1.DecoderConfig = b.DecoderConfig ∧
-      ((DecBuf.copyLoop g (ofDB b) m o).2.2 ≤ b1.Data.len) ∧
-      ((DecBuf.copyLoop g (ofDB b) m o).2.1 ≤ (DecBuf.copyLoop g (ofDB b) m o).2.2) := by
-  by_cases ho0' : o = 0
-  · have hm0 := hom ho0'
-    subst ho0'; subst hm0
-    obtain ⟨f, rfl⟩ : ∃ f, fuel = f + 1 := ⟨fuel - 1, by omega⟩
-    rw [loop_unfold, model_loop_unfold]
-    simp only [Int.natCast_zero, gt_iff_lt, Int.lt_irrefl, if_false, Nat.lt_irrefl, false_and]
-    exact ⟨b, rfl, rfl, hd, rfl, rfl, rfl, Nat.zero_le _, Nat.le_refl _⟩
-  · exact loop_spec g hg fuel b m o hd (by omega) ho hf
-
-theorem copyTail_spec (g : Nat → Nat → Nat) (hg : GrowOK g) (fuel : Nat) (b : DecoderBuffer) (h : DBWF b)
-    (m o : Nat) (hf : m < fuel) (ho : o ≤ b.Data.len) (hom : o = 0 → m = 0) :
-    ∃ b', (∀ {α : Type} (kont : DecoderBuffer → Res α), copyTail g fuel b (m : Int) (o : Int) kont = kont b') ∧
-      ofDB b' = DecBuf.copyMatch g (ofDB b) m o ∧ DBWF b' ∧
-      b'.DecoderConfig = b.DecoderConfig ∧ b'.Data.len = b.Data.len + m ∧ b'.Off = b.Off := by
-  suffices hmain : ∃ b', (∀ {α : Type} (kont : DecoderBuffer → Res α), copyTail g fuel b (m : Int) (o : Int) kont = kont b') ∧
-      ofDB b' = DecBuf.copyMatch g (ofDB b) m o ∧ DBWF b' ∧
-      b'.DecoderConfig = b.DecoderConfig ∧ b'.Off = b.Off by
-    obtain ⟨b', f1, f2, f3, f4, f5⟩ := hmain
-    refine ⟨b', f1, f2, f3, f4, ?_, f5⟩
-    have hcl := DecBuf.copyMatch_length g (ofDB b) m o (by
-      have : (ofDB b).data.length = b.Data.len := data_length h.data
-      rw [this]; omega)
-    have h1 : (ofDB b').data.length = b'.Data.len := data_length f3.data
-    have h2 : (ofDB b).data.length = b.Data.len := data_length h.data
-    rw [← h1, f2, ← h2]
-    exact hcl
-  obtain ⟨hd, hr0, ho0, hw0, hb0⟩ := h
-  obtain ⟨b1, e1, e2, e3, e4, e5, e6, e7, e8⟩ := loop_spec0 g hg fuel b hd m o hf ho hom
-  have e3' : b1.Data.len ≤ b1.Data.arr.length := e3
-  have hl1 : (ofDB b1).data.length = b1.Data.len := data_length e3
-  rw [DecBuf.copyMatch_def, ← e2]
-  generalize (DecBuf.copyLoop g (ofDB b) m o).2.1 = n1 at *
-  generalize (DecBuf.copyLoop g (ofDB b) m o).2.2 = off1 at *
-  have hj : (b1.Data.len : Int) - (off1 : Int) = ((b1.Data.len - off1 : Nat) : Int) := by omega
-  have hjn : ((b1.Data.len - off1 : Nat) : Int) + (n1 : Int) = ((b1.Data.len - off1 + n1 : Nat) : Int) := by omega
-  have hsub : b1.Data.len - off1 + n1 - (b1.Data.len - off1) = n1 := by omega
-  obtain ⟨a1, a2, a3⟩ := db_append g hg b1 e3 ((b1.Data.data.drop (b1.Data.len - off1)).take n1)
-  refine ⟨{ b1 with Data := Slice.append g b1.Data ((b1.Data.data.drop (b1.Data.len - off1)).take n1) }, ?_, ?_,
-    ⟨a2, by rw [e4]; exact hr0, by show (0:Int) ≤ b1.Off; rw [e5]; exact ho0, by rw [e6]; exact hw0, by rw [e6]; exact hb0⟩, e6, e5⟩
-  · intro α kont
-    unfold copyTail
-    rw [e1]
-    simp only [bind_ok, Int.ofNat_eq_natCast]
-    rw [hj, hjn, slice_ok _ _ _ (by omega) (by omega)]
-    simp only [bind_ok]
-    rw [slice_data _ e3 _ _ (by omega) (by omega), hsub]
-  · simp only [hl1]
-    have hdd : (ofDB b1).data = b1.Data.data := rfl
-    rw [hdd, ← a1]
-
-
-/-- one sequence after the space check: append the literals, advance the literals, copy the match -/
-def wbStep {α : Type} (grow : Nat → Nat → Nat) (fuel : Nat) (b : DecoderBuffer) (blk : Block') (s : Gen.Seq)
-    (kont : DecoderBuffer → Block' → Res α) : Res α :=
-  Res.bind (Slice.slice blk.Literals 0 (Int.ofNat s.LitLen.toNat)) fun t_4 =>
-  Res.bind (Slice.slice blk.Literals (Int.ofNat s.LitLen.toNat) (Int.ofNat blk.Literals.len)) fun t_5 =>
-  copyTail grow fuel { b with Data := Slice.append grow b.Data t_4.data } (Int.ofNat s.MatchLen.toNat) (Int.ofNat s.Offset.toNat)
-    fun b' => kont b' { blk with Literals := t_5 }
-
-theorem wb_loop_nil (grow : Nat → Nat → Nat) (fuel : Nat) (n0 : Int) (i k : Int) (s : Gen.Seq) (err : Gen.Err)
-    (b : DecoderBuffer) (ld : Int) (blk : Block') :
-    DecoderBuffer_WriteBlock_loop_1 grow fuel n0 [] i k s err b ld blk = Res.ok (0, k, s, err, b, ld, blk) := rfl
-
-theorem wb_loop_cons (grow : Nat → Nat → Nat) (fuel : Nat) (n0 : Int) (x : Gen.Seq) (rest : List Gen.Seq)
-    (i k : Int) (s : Gen.Seq) (err : Gen.Err) (b : DecoderBuffer) (ld : Int) (blk : Block') :
-    DecoderBuffer_WriteBlock_loop_1 grow fuel n0 (x :: rest) i k s err b ld blk =
-      if (Int.ofNat x.LitLen.toNat) > (Int.ofNat blk.Literals.len) then Res.ok (1, i, x, errLitLen, b, ld, blk)
-      else if (x.Offset = 0) ∧ (x.MatchLen > 0) then Res.ok (1, i, x, errOffset, b, ld, blk)
-      else if (Int.ofNat x.Offset.toNat) >
-          (if (Int.ofNat b.Data.len) + (Int.ofNat x.LitLen.toNat) > b.DecoderConfig.WindowSize then b.DecoderConfig.WindowSize
-           else (Int.ofNat b.Data.len) + (Int.ofNat x.LitLen.toNat)) then
-        Res.ok (1, i, x, errOffset, b, ld, blk)
-      else if (Int.ofNat x.LitLen.toNat) + (Int.ofNat x.MatchLen.toNat) > b.DecoderConfig.BufferSize - (Int.ofNat b.Data.len) then
-        Res.bind (DecoderBuffer_shrink b ((Int.ofNat x.LitLen.toNat) + (Int.ofNat x.MatchLen.toNat) + (Int.ofNat b.Data.len))) fun r_4 =>
-          if (Int.ofNat x.LitLen.toNat) + (Int.ofNat x.MatchLen.toNat) > r_4.1.DecoderConfig.BufferSize - (Int.ofNat r_4.1.Data.len) then
-            Res.ok (1, i, x,
-              (if (Int.ofNat x.LitLen.toNat) + (Int.ofNat x.MatchLen.toNat) > (r_4.1.DecoderConfig.BufferSize - r_4.1.DecoderConfig.WindowSize)
-               then errMatchLen else ErrFullBuffer), r_4.1, ld - r_4.2, blk)
-          else wbStep grow fuel r_4.1 blk x fun b' blk' =>
-            DecoderBuffer_WriteBlock_loop_1 grow fuel n0 rest (i + 1) i x err b' (ld - r_4.2) blk'
-      else wbStep grow fuel b blk x fun b' blk' =>
-        DecoderBuffer_WriteBlock_loop_1 grow fuel n0 rest (i + 1) i x err b' ld blk' := by
-  rw [DecoderBuffer_WriteBlock_loop_1]
-  simp only [wbStep, copyTail, wb_loop2_eq]
-
-
-def ofSeq (s : Gen.Seq) : LZ.Seq :=
-  { litLen := s.LitLen.toNat, matchLen := s.MatchLen.toNat, offset := s.Offset.toNat, aux := s.Aux.toNat }
-
-theorem wbStep_spec (g : Nat → Nat → Nat) (hg : GrowOK g) (fuel : Nat) (b : DecoderBuffer) (h : DBWF b)
-    (blk : Block') (hl : SWF blk.Literals) (s : Gen.Seq)
-    (hll : s.LitLen.toNat ≤ blk.Literals.len) (hf : s.MatchLen.toNat < fuel)
-    (ho : s.Offset.toNat ≤ b.Data.len + s.LitLen.toNat) (hom : s.Offset.toNat = 0 → s.MatchLen.toNat = 0) :
-    ∃ b' blk', (∀ {α : Type} (kont : DecoderBuffer → Block' → Res α), wbStep g fuel b blk s kont = kont b' blk') ∧
-      ofDB b' = DecBuf.copyMatch g ((ofDB b).append g (blk.Literals.data.take s.LitLen.toNat)) s.MatchLen.toNat s.Offset.toNat ∧
-      DBWF b' ∧ b'.DecoderConfig = b.DecoderConfig ∧ b'.Off = b.Off ∧
-      b'.Data.len = b.Data.len + s.LitLen.toNat + s.MatchLen.toNat ∧
-      blk'.Literals.data = blk.Literals.data.drop s.LitLen.toNat ∧ SWF blk'.Literals ∧
-      blk'.Sequences = blk.Sequences ∧ blk'.Literals.len = blk.Literals.len - s.LitLen.toNat := by
-  obtain ⟨hd, hr0, ho0, hw0, hb0⟩ := h
-  have hl' : blk.Literals.len ≤ blk.Literals.arr.length := hl
-  generalize hL : s.LitLen.toNat = L at *
-  have h0 : ((0 : Nat) : Int) = 0 := rfl
-  -- the two slices of the literals
-  have e4 : Slice.slice blk.Literals 0 (Int.ofNat L) = Res.ok { arr := blk.Literals.arr, len := L } := by
-    rw [← h0, Int.ofNat_eq_natCast, slice_ok _ 0 L (Nat.zero_le _) (by omega)]; rfl
-  have e5 : Slice.slice blk.Literals (Int.ofNat L) (Int.ofNat blk.Literals.len)
-      = Res.ok { arr := blk.Literals.arr.drop L, len := blk.Literals.len - L } := by
-    rw [Int.ofNat_eq_natCast, Int.ofNat_eq_natCast, slice_ok _ L _ hll hl]
-  have d4 : ({ arr := blk.Literals.arr, len := L } : Slice).data = blk.Literals.data.take L := by
-    rw [take_data_eq _ _ hll]; rfl
-  have d5 : ({ arr := blk.Literals.arr.drop L, len := blk.Literals.len - L } : Slice).data = blk.Literals.data.drop L := by
-    simp only [Slice.data, List.drop_take]
-  have w5 : SWF { arr := blk.Literals.arr.drop L, len := blk.Literals.len - L } := by
-    show blk.Literals.len - L ≤ (blk.Literals.arr.drop L).length
-    simp only [List.length_drop]; omega
-  obtain ⟨a1, a2, a3⟩ := db_append g hg b hd (blk.Literals.data.take L)
-  have htl : (blk.Literals.data.take L).length = L := by
-    rw [List.length_take, data_length hl]; omega
-  rw [htl] at a3
-  have hwf1 : DBWF { b with Data := Slice.append g b.Data (blk.Literals.data.take L) } := ⟨a2, hr0, ho0, hw0, hb0⟩
-  obtain ⟨b', c1, c2, c3, c4, c5, c6⟩ := copyTail_spec g hg fuel _ hwf1 s.MatchLen.toNat s.Offset.toNat hf
-    (by show s.Offset.toNat ≤ (Slice.append g b.Data _).len; rw [a3]; exact ho) hom
-  refine ⟨b', { blk with Literals := { arr := blk.Literals.arr.drop L, len := blk.Literals.len - L } }, ?_, ?_, c3, c4, c6, ?_, d5, w5, rfl, rfl⟩
-  · intro α kont
-    unfold wbStep
-    rw [hL, e4, e5]
-    simp only [bind_ok, d4, Int.ofNat_eq_natCast]
-    exact c1 _
-  · rw [c2, a1]
-  · rw [c5]
-    show (Slice.append g b.Data _).len + _ = _
-    rw [a3]
-
-
-theorem model_shrink_len (m : DecBuf) (g : Nat) :
-    (DecBuf.shrink m g).1.data.length = m.data.length - (DecBuf.shrink m g).2 := by
-  rw [model_shrink_unfold]
-  unfold modelShrinkTail
-  by_cases h1 : m.bs < m.cap <;> by_cases h2 : g ≤ m.cap <;> simp only [h1, h2, if_true, if_false] <;>
-    (try split) <;> (try dsimp only) <;> (try simp only [List.length_drop]) <;> omega
-
-/-- the sequence loop of `WriteBlock` -/
-theorem wb_loop_spec (g : Nat → Nat → Nat) (hg : GrowOK g) (fuel : Nat) (n0 : Int) :
-    ∀ (seqs : List Gen.Seq) (i dl : Nat) (k0 : Int) (s0 : Gen.Seq) (b : DecoderBuffer) (LD : Int) (blk : Block'),
-    DBWF b → SWF blk.Literals → (b.Data.len : Int) ≤ b.DecoderConfig.BufferSize →
-    (∀ s ∈ seqs, s.MatchLen.toNat < fuel) → LD - (dl : Int) ≤ (b.Data.len : Int) →
-    ∃ code k' s' e' b' blk',
-      DecoderBuffer_WriteBlock_loop_1 g fuel n0 seqs (i : Int) k0 s0 Gen.Err.ok b (LD - (dl : Int)) blk =
-        Res.ok (code, k', s', e', b',
-          LD - ((DecBuf.seqLoop g (ofDB b) (seqs.map ofSeq) blk.Literals.data i dl).2.2.2.1 : Int), blk') ∧
-      ofDB b' = (DecBuf.seqLoop g (ofDB b) (seqs.map ofSeq) blk.Literals.data i dl).1 ∧ DBWF b' ∧
-      (b'.Data.len : Int) ≤ b'.DecoderConfig.BufferSize ∧
-      blk'.Literals.data = (DecBuf.seqLoop g (ofDB b) (seqs.map ofSeq) blk.Literals.data i dl).2.2.1 ∧
-      SWF blk'.Literals ∧ blk'.Sequences = blk.Sequences ∧
-      LD - ((DecBuf.seqLoop g (ofDB b) (seqs.map ofSeq) blk.Literals.data i dl).2.2.2.1 : Int) ≤ (b'.Data.len : Int) ∧
-      b'.Off = b.Off ∧ blk'.Literals.len ≤ blk.Literals.len ∧
-      ((DecBuf.seqLoop g (ofDB b) (seqs.map ofSeq) blk.Literals.data i dl).2.2.2.2 = .ok →
-        code = 0 ∧ e' = Gen.Err.ok ∧
-        (DecBuf.seqLoop g (ofDB b) (seqs.map ofSeq) blk.Literals.data i dl).2.1 = i + seqs.length) ∧
-      ((DecBuf.seqLoop g (ofDB b) (seqs.map ofSeq) blk.Literals.data i dl).2.2.2.2 ≠ .ok →
-        code = 1 ∧ errOf e' = some (DecBuf.seqLoop g (ofDB b) (seqs.map ofSeq) blk.Literals.data i dl).2.2.2.2 ∧
-        k' = ((DecBuf.seqLoop g (ofDB b) (seqs.map ofSeq) blk.Literals.data i dl).2.1 : Int)) := by
-  intro seqs
-  induction seqs with
-  | nil =>
-    intro i dl k0 s0 b LD blk hwf hl hlen _ hld
-    rw [wb_loop_nil]
-    simp only [List.map_nil, DecBuf.seqLoop]
-    exact ⟨_, _, _, _, _, _, rfl, rfl, hwf, hlen, rfl, hl, rfl, hld, rfl, Nat.le_refl _,
-      fun _ => ⟨rfl, rfl, by simp⟩, fun hne => absurd rfl hne⟩
-  | cons x rest ih =>
-    intro i dl k0 s0 b LD blk hwf hl hlen hfuel hld
-    have hwf0 := hwf
-    obtain ⟨hd, hr0, ho0, hw0, hb0⟩ := hwf
-    have hdl : (ofDB b).data.length = b.Data.len := data_length hd
-    have hll : blk.Literals.data.length = blk.Literals.len := data_length hl
-    obtain ⟨W, hW⟩ : ∃ W : Nat, b.DecoderConfig.WindowSize = (W : Int) := ⟨_, (Int.toNat_of_nonneg hw0).symm⟩
-    obtain ⟨B, hB⟩ : ∃ B : Nat, b.DecoderConfig.BufferSize = (B : Int) := ⟨_, (Int.toNat_of_nonneg hb0).symm⟩
-    have hmw : (ofDB b).ws = W := by simp only [ofDB]; omega
-    have hmb : (ofDB b).bs = B := by simp only [ofDB]; omega
-    have hfx : x.MatchLen.toNat < fuel := hfuel x (List.mem_cons_self)
-    have hfr : ∀ s ∈ rest, s.MatchLen.toNat < fuel := fun s hs => hfuel s (List.mem_cons_of_mem _ hs)
-    rw [wb_loop_cons]
-    simp only [List.map_cons, DecBuf.seqLoop]
-    have hsl : (ofSeq x).litLen = x.LitLen.toNat := rfl
-    have hsm : (ofSeq x).matchLen = x.MatchLen.toNat := rfl
-    have hso : (ofSeq x).offset = x.Offset.toNat := rfl
-    simp only [hsl, hsm, hso, hdl, hll, hmw, hmb, hW, hB, Int.ofNat_eq_natCast, u32_eq_zero, u32_pos]
-    generalize hxl : x.LitLen.toNat = L at *
-    generalize hxm : x.MatchLen.toNat = M at *
-    generalize hxo : x.Offset.toNat = O at *
-    rw [hB] at hlen
-    by_cases h1 : L > blk.Literals.len
-    · have h1' : (L : Int) > (blk.Literals.len : Int) := by omega
-      simp only [h1, h1', if_true]
-      exact ⟨_, _, _, _, _, _, rfl, rfl, hwf0, (by rw [hB]; exact hlen), rfl, hl, rfl, hld, rfl, Nat.le_refl _,
-        (fun hc => by cases hc), fun _ => ⟨rfl, errOf_litLen, rfl⟩⟩
-    · have h1' : ¬ (L : Int) > (blk.Literals.len : Int) := by omega
-      simp only [h1, h1', if_false]
-      by_cases h2 : O = 0 ∧ M > 0
-      · simp only [h2, and_self, if_true]
-        exact ⟨_, _, _, _, _, _, rfl, rfl, hwf0, (by rw [hB]; exact hlen), rfl, hl, rfl, hld, rfl, Nat.le_refl _,
-          (fun hc => by cases hc), fun _ => ⟨rfl, errOf_offset, rfl⟩⟩
-      · simp only [h2, if_false]
-        have hwin : (if (b.Data.len : Int) + (L : Int) > (W : Int) then (W : Int) else (b.Data.len : Int) + (L : Int))
-            = ((Min.min (b.Data.len + L) W : Nat) : Int) := by
-          split <;> omega
-        rw [hwin]
-        by_cases h3 : O > Min.min (b.Data.len + L) W
-        · have h3' : (O : Int) > ((Min.min (b.Data.len + L) W : Nat) : Int) := by omega
-          simp only [h3, h3', if_true]
-          exact ⟨_, _, _, _, _, _, rfl, rfl, hwf0, (by rw [hB]; exact hlen), rfl, hl, rfl, hld, rfl, Nat.le_refl _,
-            (fun hc => by cases hc), fun _ => ⟨rfl, errOf_offset, rfl⟩⟩
-        · have h3' : ¬ (O : Int) > ((Min.min (b.Data.len + L) W : Nat) : Int) := by omega
-          simp only [h3, h3', if_false]
-          have hom : O = 0 → M = 0 := by omega
-          by_cases h4 : L + M > B - b.Data.len
-          · have h4' : (L : Int) + (M : Int) > (B : Int) - (b.Data.len : Int) := by omega
-            simp only [h4, h4', if_true]
-            obtain ⟨b1, e1, e2, e3, e4, e5⟩ := gen_dbuf_shrink b hwf0 ((L : Int) + (M : Int) + (b.Data.len : Int))
-            have hto : ((L : Int) + (M : Int) + (b.Data.len : Int)).toNat = L + M + b.Data.len := by omega
-            rw [hto] at e1 e2
-            obtain ⟨s1, s2, s3, s4, s5⟩ := model_shrink_facts (ofDB b) (L + M + b.Data.len)
-            have s6 := model_shrink_len (ofDB b) (L + M + b.Data.len)
-            have s7 := model_shrink_delta_le (ofDB b) (L + M + b.Data.len)
-            rw [e1]
-            simp only [bind_ok]
-            have hl' : (DecBuf.shrink (ofDB b) (L + M + b.Data.len)).1.data.length = b1.Data.len := by
-              rw [← e2]; exact data_length e3.data
-            have hbs' : (DecBuf.shrink (ofDB b) (L + M + b.Data.len)).1.bs = b1.DecoderConfig.BufferSize.toNat := by
-              rw [← e2]; rfl
-            have hws' : (DecBuf.shrink (ofDB b) (L + M + b.Data.len)).1.ws = b1.DecoderConfig.WindowSize.toNat := by
-              rw [← e2]; rfl
-            have hb0' := e3.bs
-            have hw0' := e3.ws
-            simp only [hdl, hmb, hmw, hl', hbs'] at s1 s2 s3 s6 s7
-            have hlen' : (b1.Data.len : Int) ≤ b1.DecoderConfig.BufferSize := by omega
-            generalize hD : (DecBuf.shrink (ofDB b) (L + M + b.Data.len)).2 = D at *
-            have hldD : LD - (dl : Int) - (D : Int) = LD - ((dl + D : Nat) : Int) := by omega
-            by_cases h5 : L + M ≤ (DecBuf.shrink (ofDB b) (L + M + b.Data.len)).1.bs - (DecBuf.shrink (ofDB b) (L + M + b.Data.len)).1.data.length
-            · have h5' : ¬ (L : Int) + (M : Int) > b1.DecoderConfig.BufferSize - (b1.Data.len : Int) := by
-                rw [hbs', hl'] at h5; omega
-              simp only [h5, h5', decide_true, not_true_eq_false, if_false]
-              obtain ⟨b2, blk2, c1, c2, c3, c4, c5, c6, c7, c8, c9, c10⟩ :=
-                wbStep_spec g hg fuel b1 e3 blk hl x (by rw [hxl]; omega) (by rw [hxm]; exact hfx)
-                  (by rw [hxo, hxl]; omega) (by rw [hxo, hxm]; exact hom)
-              rw [c1, hldD]
-              simp only [hxl, hxm, hxo] at c2 c6 c7 c10
-              have hi1 : (i : Int) + 1 = ((i + 1 : Nat) : Int) := by omega
-              rw [hi1]
-              obtain ⟨code, k', s', e', b', blk', r1, r2, r3, r4, r5, r6, r7, r8, r9, r9b, r10, r11⟩ :=
-                ih (i + 1) (dl + D) (i : Int) x b2 LD blk2 c3 c8 (by rw [c4, c6]; rw [hbs', hl'] at h5; omega) hfr
-                  (by rw [c6]; omega)
-              rw [c2, c7, e2] at r1 r2 r5 r8 r10 r11
-              refine ⟨code, k', s', e', b', blk', r1, r2, r3, r4, r5, r6, by rw [r7, c9], r8, by rw [r9, c5, e5], by omega, ?_, r11⟩
-              intro hok
-              obtain ⟨q1, q2, q3⟩ := r10 hok
-              exact ⟨q1, q2, by rw [q3, List.length_cons]; omega⟩
-            · have h5' : (L : Int) + (M : Int) > b1.DecoderConfig.BufferSize - (b1.Data.len : Int) := by
-                rw [hbs', hl'] at h5; omega
-              simp only [h5, h5', decide_false, Bool.false_eq_true, not_false_eq_true, if_true]
-              rw [hldD]
-              by_cases h6 : L + M > (DecBuf.shrink (ofDB b) (L + M + b.Data.len)).1.bs - (DecBuf.shrink (ofDB b) (L + M + b.Data.len)).1.ws
-              · have h6' : (L : Int) + (M : Int) > b1.DecoderConfig.BufferSize - b1.DecoderConfig.WindowSize := by
-                  rw [hbs', hws'] at h6; omega
-                simp only [h6, h6', if_true]
-                exact ⟨_, _, _, _, _, _, rfl, e2, e3, hlen', rfl, hl, rfl, by omega, e5, Nat.le_refl _,
-                  (fun hc => by cases hc), fun _ => ⟨rfl, errOf_matchLen, rfl⟩⟩
-              · have h6' : ¬ (L : Int) + (M : Int) > b1.DecoderConfig.BufferSize - b1.DecoderConfig.WindowSize := by
-                  rw [hbs', hws'] at h6; omega
-                simp only [h6, h6', if_false]
-                exact ⟨_, _, _, _, _, _, rfl, e2, e3, hlen', rfl, hl, rfl, by omega, e5, Nat.le_refl _,
-                  (fun hc => by cases hc), fun _ => ⟨rfl, errOf_full, rfl⟩⟩
-          · have h4' : ¬ (L : Int) + (M : Int) > (B : Int) - (b.Data.len : Int) := by omega
-            simp only [h4, h4', if_false, not_true_eq_false, Nat.add_zero]
-            obtain ⟨b2, blk2, c1, c2, c3, c4, c5, c6, c7, c8, c9, c10⟩ :=
-              wbStep_spec g hg fuel b hwf0 blk hl x (by rw [hxl]; omega) (by rw [hxm]; exact hfx)
-                (by rw [hxo, hxl]; omega) (by rw [hxo, hxm]; exact hom)
-            rw [c1]
-            simp only [hxl, hxm, hxo] at c2 c6 c7 c10
-            have hi1 : (i : Int) + 1 = ((i + 1 : Nat) : Int) := by omega
-            rw [hi1]
-            obtain ⟨code, k', s', e', b', blk', r1, r2, r3, r4, r5, r6, r7, r8, r9, r9b, r10, r11⟩ :=
-              ih (i + 1) dl (i : Int) x b2 LD blk2 c3 c8 (by rw [c4, c6, hB]; omega) hfr (by rw [c6]; omega)
-            rw [c2, c7] at r1 r2 r5 r8 r10 r11
-            refine ⟨code, k', s', e', b', blk', r1, r2, r3, r4, r5, r6, by rw [r7, c9], r8, by rw [r9, c5], by omega, ?_, r11⟩
-            intro hok
-            obtain ⟨q1, q2, q3⟩ := r10 hok
-            exact ⟨q1, q2, by rw [q3, List.length_cons]; omega⟩
-
-
-def ofBlock (blk : Block') : LZ.Block := { seqs := blk.Sequences.map ofSeq, lits := blk.Literals.data }
-
-/-- the statements after the label `end:` -/
-def wbEnd (b : DecoderBuffer) (blk : Block') (ld ll k : Int) (err : Gen.Err) :
-    Res (DecoderBuffer × Int × Int × Int × Gen.Err) :=
-  Res.ok ({ b with Off := b.Off + ((Int.ofNat b.Data.len) - ld) }, (Int.ofNat b.Data.len) - ld, k,
-    ll - (Int.ofNat blk.Literals.len), err)
-
-/-- the trailing literals -/
-def wbLits (grow : Nat → Nat → Nat) (b : DecoderBuffer) (blk : Block') (ld ll k : Int) (err : Gen.Err) :
-    Res (DecoderBuffer × Int × Int × Int × Gen.Err) :=
-  Res.bind (Slice.slice blk.Literals 0 (0 : Int)) fun t_2 =>
-    wbEnd { b with Data := Slice.append grow b.Data blk.Literals.data } { blk with Literals := t_2 } ld ll k err
-
-theorem gen_writeBlock_unfold (grow : Nat → Nat → Nat) (fuel : Nat) (b : DecoderBuffer) (blk : Block') :
-    DecoderBuffer_WriteBlock grow fuel b blk =
-      Res.bind (DecoderBuffer_WriteBlock_loop_1 grow fuel 0 blk.Sequences 0 0
-          { LitLen := 0, MatchLen := 0, Offset := 0, Aux := 0 } Gen.Err.ok b (Int.ofNat b.Data.len) blk) fun r =>
-        if r.1 = 1 then
-          wbEnd r.2.2.2.2.1 r.2.2.2.2.2.2 r.2.2.2.2.2.1 (Int.ofNat blk.Literals.len) r.2.1 r.2.2.2.1
-        else
-          if (Int.ofNat r.2.2.2.2.1.Data.len) + (Int.ofNat r.2.2.2.2.2.2.Literals.len) > r.2.2.2.2.1.DecoderConfig.BufferSize then
-            Res.bind (DecoderBuffer_shrink r.2.2.2.2.1 ((Int.ofNat r.2.2.2.2.1.Data.len) + (Int.ofNat r.2.2.2.2.2.2.Literals.len))) fun r_2 =>
-              if (Int.ofNat r.2.2.2.2.1.Data.len) + (Int.ofNat r.2.2.2.2.2.2.Literals.len) - r_2.2 > r_2.1.DecoderConfig.BufferSize then
-                wbEnd r_2.1 r.2.2.2.2.2.2 (r.2.2.2.2.2.1 - r_2.2) (Int.ofNat blk.Literals.len)
-                  (Int.ofNat r.2.2.2.2.2.2.Sequences.length) ErrFullBuffer
-              else wbLits grow r_2.1 r.2.2.2.2.2.2 (r.2.2.2.2.2.1 - r_2.2) (Int.ofNat blk.Literals.len)
-                  (Int.ofNat r.2.2.2.2.2.2.Sequences.length) r.2.2.2.1
-          else wbLits grow r.2.2.2.2.1 r.2.2.2.2.2.2 r.2.2.2.2.2.1 (Int.ofNat blk.Literals.len)
-                  (Int.ofNat r.2.2.2.2.2.2.Sequences.length) r.2.2.2.1 := rfl
-
-
-/-- D09 `WriteBlock(blk)`: for every fuel above the match lengths of the block the generated function
-    neither panics nor runs out of fuel and agrees with the model on the buffer, `n`, `k`, `l` and the error -/
-theorem gen_dbuf_writeBlock (g : Nat → Nat → Nat) (hg : GrowOK g) (fuel : Nat) (b : DecoderBuffer) (h : DBWF b)
-    (hlen : (b.Data.len : Int) ≤ b.DecoderConfig.BufferSize) (blk : Block') (hl : SWF blk.Literals)
-    (hf : ∀ s ∈ blk.Sequences, s.MatchLen.toNat < fuel) :
-    ∃ b' e, DecoderBuffer_WriteBlock g fuel b blk =
-        Res.ok (b', (DecBuf.writeBlock g (ofDB b) (ofBlock blk)).2.1,
-          ((DecBuf.writeBlock g (ofDB b) (ofBlock blk)).2.2.1 : Int),
-          ((DecBuf.writeBlock g (ofDB b) (ofBlock blk)).2.2.2.1 : Int), e) ∧
-      ofDB b' = (DecBuf.writeBlock g (ofDB b) (ofBlock blk)).1 ∧
-      errOf e = some (DecBuf.writeBlock g (ofDB b) (ofBlock blk)).2.2.2.2 ∧ DBWF b' ∧
-      (b'.Data.len : Int) ≤ b'.DecoderConfig.BufferSize := by
-  generalize hmb : ofBlock blk = mb
-  obtain ⟨ms, ml⟩ := mb
-  simp only [ofBlock, LZ.Block.mk.injEq] at hmb
-  obtain ⟨hms, hml⟩ := hmb
-  subst hms; subst hml
-  have hdl : (ofDB b).data.length = b.Data.len := data_length h.data
-  have hll : blk.Literals.data.length = blk.Literals.len := data_length hl
-  obtain ⟨code, k', s', e', b1, blk1, r1, r2, r3, r4, r5, r6, r7, r8, r9, r9b, r10, r11⟩ :=
-    wb_loop_spec g hg fuel 0 blk.Sequences 0 0 0 { LitLen := 0, MatchLen := 0, Offset := 0, Aux := 0 } b
-      (b.Data.len : Int) blk h hl hlen hf (by omega)
-  have hz : ((0 : Nat) : Int) = 0 := rfl
-  rw [hz, Int.sub_zero] at r1
-  rw [gen_writeBlock_unfold, Int.ofNat_eq_natCast, r1]
-  unfold DecBuf.writeBlock
-  simp only [bind_ok, hdl, hll, Int.ofNat_eq_natCast]
-  have hl1 : (ofDB b1).data.length = b1.Data.len := data_length r3.data
-  have hll1 : blk1.Literals.data.length = blk1.Literals.len := data_length r6
-  rw [← r2, ← r5]
-  generalize hK : (DecBuf.seqLoop g (ofDB b) (List.map ofSeq blk.Sequences) blk.Literals.data 0 0).2.1 = mk at *
-  generalize hDL : (DecBuf.seqLoop g (ofDB b) (List.map ofSeq blk.Sequences) blk.Literals.data 0 0).2.2.2.1 = mdl at *
-  generalize hE : (DecBuf.seqLoop g (ofDB b) (List.map ofSeq blk.Sequences) blk.Literals.data 0 0).2.2.2.2 = me at *
-  simp only [hl1, hll1]
-  obtain ⟨hd1, hr1, ho1, hw1, hb1⟩ := r3
-  by_cases hme : me = .ok
-  · obtain ⟨q1, q2, q3⟩ := r10 hme
-    subst q1; subst q2
-    simp only [hme, ne_eq, not_true_eq_false, if_false, Nat.zero_ne_one]
-    have hbs1 : (ofDB b1).bs = b1.DecoderConfig.BufferSize.toNat := rfl
-    have hwfb1 : DBWF b1 := ⟨hd1, hr1, ho1, hw1, hb1⟩
-    have hK0 : mk = blk.Sequences.length := by omega
-    rw [r7, hK0]
-    -- the trailing literals: append and finish
-    have finL : ∀ (b2 : DecoderBuffer) (LDD : Int), DBWF b2 → LDD ≤ (b2.Data.len : Int) →
-        (b2.Data.len : Int) + (blk1.Literals.len : Int) ≤ b2.DecoderConfig.BufferSize →
-        ∃ b', wbLits g b2 blk1 LDD (blk.Literals.len : Int) (blk.Sequences.length : Int) Gen.Err.ok =
-            Res.ok (b', ((b2.Data.len + blk1.Literals.len : Nat) : Int) - LDD, (blk.Sequences.length : Int),
-              (blk.Literals.len : Int), Gen.Err.ok) ∧
-          ofDB b' = { (DecBuf.append g (ofDB b2) blk1.Literals.data) with
-            off := (((ofDB b2).off : Int) + (((b2.Data.len + blk1.Literals.len : Nat) : Int) - LDD)).toNat } ∧
-          DBWF b' ∧ (b'.Data.len : Int) ≤ b'.DecoderConfig.BufferSize := by
-      intro b2 LDD hwf2 hldd hfit
-      obtain ⟨hd2, hr2, ho2, hw2, hb2⟩ := hwf2
-      obtain ⟨a1, a2, a3⟩ := db_append g hg b2 hd2 blk1.Literals.data
-      rw [hll1] at a3
-      unfold wbLits wbEnd
-      have h0 : ((0 : Nat) : Int) = 0 := rfl
-      rw [← h0, slice_ok _ 0 0 (Nat.le_refl _) (Nat.zero_le _)]
-      simp only [bind_ok, Int.ofNat_eq_natCast, a3, Nat.sub_zero, Int.natCast_zero, Int.sub_zero]
-      refine ⟨_, rfl, ?_, ⟨a2, hr2, by show (0 : Int) ≤ b2.Off + (((b2.Data.len + blk1.Literals.len : Nat) : Int) - LDD); omega, hw2, hb2⟩, ?_⟩
-      · rw [← a1]
-        simp only [ofDB]
-        congr 1
-        omega
-      · show ((Slice.append g b2.Data blk1.Literals.data).len : Int) ≤ b2.DecoderConfig.BufferSize
-        rw [a3]; omega
-    by_cases h1 : b1.Data.len + blk1.Literals.len > (ofDB b1).bs
-    · have h1' : (b1.Data.len : Int) + (blk1.Literals.len : Int) > b1.DecoderConfig.BufferSize := by
-        rw [hbs1] at h1; omega
-      simp only [h1, h1', if_true]
-      obtain ⟨b2, e1, e2, e3, e4, e5⟩ := gen_dbuf_shrink b1 hwfb1 ((b1.Data.len : Int) + (blk1.Literals.len : Int))
-      have hto : ((b1.Data.len : Int) + (blk1.Literals.len : Int)).toNat = b1.Data.len + blk1.Literals.len := by omega
-      rw [hto] at e1 e2
-      obtain ⟨s1, s2, s3, s4, s5⟩ := model_shrink_facts (ofDB b1) (b1.Data.len + blk1.Literals.len)
-      have s6 := model_shrink_len (ofDB b1) (b1.Data.len + blk1.Literals.len)
-      have s7 := model_shrink_delta_le (ofDB b1) (b1.Data.len + blk1.Literals.len)
-      rw [e1]
-      simp only [bind_ok]
-      have hl2 : (DecBuf.shrink (ofDB b1) (b1.Data.len + blk1.Literals.len)).1.data.length = b2.Data.len := by
-        rw [← e2]; exact data_length e3.data
-      have hbs2 : (DecBuf.shrink (ofDB b1) (b1.Data.len + blk1.Literals.len)).1.bs = b2.DecoderConfig.BufferSize.toNat := by
-        rw [← e2]; rfl
-      have hb02 := e3.bs
-      simp only [hl1, hl2, hbs2, hbs1] at s1 s2 s6 s7
-      rw [← e2]
-      generalize hD : (DecBuf.shrink (ofDB b1) (b1.Data.len + blk1.Literals.len)).2 = D at *
-      by_cases h2 : b1.Data.len + blk1.Literals.len - D > (ofDB b2).bs
-      · have hbs2' : (ofDB b2).bs = b2.DecoderConfig.BufferSize.toNat := rfl
-        have h2' : (b1.Data.len : Int) + (blk1.Literals.len : Int) - (D : Int) > b2.DecoderConfig.BufferSize := by
-          rw [hbs2'] at h2; omega
-        simp only [h2, h2', if_true, wbEnd, Int.ofNat_eq_natCast]
-        have hl2' : (ofDB b2).data.length = b2.Data.len := data_length e3.data
-        simp only [hl2']
-        refine ⟨{ b2 with Off := b2.Off + ((b2.Data.len : Int) - ((b.Data.len : Int) - (mdl : Int) - (D : Int))) }, ErrFullBuffer, ?_, ?_, errOf_full,
-          ⟨e3.data, e3.r, by show (0 : Int) ≤ b2.Off + ((b2.Data.len : Int) - ((b.Data.len : Int) - (mdl : Int) - (D : Int))); have := e3.off; omega, e3.ws, e3.bs⟩,
-          by show (b2.Data.len : Int) ≤ b2.DecoderConfig.BufferSize; omega⟩
-        · have hL : ((blk.Literals.len - blk1.Literals.len : Nat) : Int) = (blk.Literals.len : Int) - (blk1.Literals.len : Int) := by omega
-          have hN : (b2.Data.len : Int) - ((b.Data.len : Int) - (mdl : Int) - (D : Int)) = (b2.Data.len : Int) - ((b.Data.len : Int) - ((mdl + D : Nat) : Int)) := by omega
-          rw [hL, hN]
-        · simp only [ofDB]
-          congr 1
-          have := e3.off
-          omega
-      · have hbs2' : (ofDB b2).bs = b2.DecoderConfig.BufferSize.toNat := rfl
-        have h2' : ¬ (b1.Data.len : Int) + (blk1.Literals.len : Int) - (D : Int) > b2.DecoderConfig.BufferSize := by
-          rw [hbs2'] at h2; omega
-        simp only [h2, h2', if_false]
-        obtain ⟨b3, f1, f2, f3, f4⟩ := finL b2 ((b.Data.len : Int) - (mdl : Int) - (D : Int)) e3 (by omega) (by omega)
-        rw [f1]
-        have hl2' : (ofDB b2).data.length = b2.Data.len := data_length e3.data
-        refine ⟨b3, Gen.Err.ok, ?_, ?_, errOf_ok, f3, f4⟩
-        · simp only [DecBuf.append, List.length_append, hl2', hll1, List.length_nil, Nat.sub_zero]
-          congr 3
-          omega
-        · rw [f2]
-          simp only [DecBuf.append, List.length_append, hl2', hll1]
-          congr 1
-          omega
-    · have h1' : ¬ (b1.Data.len : Int) + (blk1.Literals.len : Int) > b1.DecoderConfig.BufferSize := by
-        rw [hbs1] at h1; omega
-      simp only [h1, h1', if_false, Nat.add_zero]
-      obtain ⟨b3, f1, f2, f3, f4⟩ := finL b1 ((b.Data.len : Int) - (mdl : Int)) hwfb1 r8 (by omega)
-      rw [f1]
-      refine ⟨b3, Gen.Err.ok, ?_, ?_, errOf_ok, f3, f4⟩
-      · simp only [DecBuf.append, List.length_append, hl1, hll1, List.length_nil, Nat.sub_zero]
-      · rw [f2]
-        simp only [DecBuf.append, List.length_append, hl1, hll1]
-  · obtain ⟨q1, q2, q3⟩ := r11 hme
-    subst q1
-    simp only [hme, ne_eq, not_false_eq_true, if_true, wbEnd, Int.ofNat_eq_natCast]
-    refine ⟨{ b1 with Off := b1.Off + ((b1.Data.len : Int) - ((b.Data.len : Int) - (mdl : Int))) }, e', ?_, ?_, q2,
-      ⟨hd1, hr1, by show (0 : Int) ≤ b1.Off + ((b1.Data.len : Int) - ((b.Data.len : Int) - (mdl : Int))); omega, hw1, hb1⟩, r4⟩
-    · have hL : ((blk.Literals.len - blk1.Literals.len : Nat) : Int) = (blk.Literals.len : Int) - (blk1.Literals.len : Int) := by omega
-      rw [q3, hL]
-    · simp only [ofDB]
-      congr 1
-      omega
-
-
-/-! ### the invariant `len(Data) ≤ BufferSize` -/
-
-/-- the buffer invariant `len(Data) ≤ BufferSize` that D08/D09 assume, on the model -/
-def LenInv (m : DecBuf) : Prop := m.data.length ≤ m.bs
-
-theorem lenInv_iff (b : DecoderBuffer) (h : DBWF b) :
-    LenInv (ofDB b) ↔ (b.Data.len : Int) ≤ b.DecoderConfig.BufferSize := by
-  have hl : (ofDB b).data.length = b.Data.len := data_length h.data
-  have hb := h.bs
-  unfold LenInv
-  rw [hl]
-  simp only [ofDB]
-  omega
-
-theorem model_shrink_lenInv (m : DecBuf) (g : Nat) (h : LenInv m) : LenInv (DecBuf.shrink m g).1 := by
-  obtain ⟨s1, s2, _, _, _⟩ := model_shrink_facts m g
-  unfold LenInv at *; omega
-
-theorem model_reset_lenInv (m : DecBuf) : LenInv m.reset := by
-  unfold LenInv DecBuf.reset; simp
-
-theorem model_writeByte_lenInv (g : Grow) (m : DecBuf) (c : Byte) (h : LenInv m) :
-    LenInv (DecBuf.writeByte g m c).1 := by
-  have hs := model_shrink_lenInv m (m.data.length + 1) h
-  have hd := model_shrink_delta_le m (m.data.length + 1)
-  have hl := model_shrink_len m (m.data.length + 1)
-  unfold LenInv at *
-  unfold DecBuf.writeByte
-  by_cases h1 : m.data.length + 1 > m.bs
-  · simp only [h1, if_true]
-    by_cases h2 : m.data.length + 1 - (DecBuf.shrink m (m.data.length + 1)).2 > (DecBuf.shrink m (m.data.length + 1)).1.bs
-    · simp only [h2, if_true]; exact hs
-    · simp only [h2, if_false, DecBuf.append, List.length_append, List.length_singleton]; omega
-  · simp only [h1, if_false, DecBuf.append, List.length_append, List.length_singleton]; omega
-
-theorem model_write_lenInv (g : Grow) (m : DecBuf) (p : List Byte) (h : LenInv m) :
-    LenInv (DecBuf.write g m p).1 := by
-  have hs := model_shrink_lenInv m (m.data.length + p.length) h
-  have hd := model_shrink_delta_le m (m.data.length + p.length)
-  have hl := model_shrink_len m (m.data.length + p.length)
-  unfold LenInv at *
-  unfold DecBuf.write
-  by_cases h1 : m.data.length + p.length > m.bs
-  · simp only [h1, if_true]
-    by_cases h2 : m.data.length + p.length - (DecBuf.shrink m (m.data.length + p.length)).2 > (DecBuf.shrink m (m.data.length + p.length)).1.bs
-    · simp only [h2, if_true]; exact hs
-    · simp only [h2, if_false, DecBuf.append, List.length_append]; omega
-  · simp only [h1, if_false, DecBuf.append, List.length_append]; omega
-
-/-- D10 the invariant `len(Data) ≤ BufferSize` (hypothesis of D08/D09, conclusion of D08/D09) holds after
-    `Init` and is preserved by `Reset`, `shrink`, `WriteByte`, `Write` and `Read` -/
-theorem gen_dbuf_lenInv (g : Nat → Nat → Nat) (hg : GrowOK g) (b : DecoderBuffer) (h : DBWF b)
-    (hlen : (b.Data.len : Int) ≤ b.DecoderConfig.BufferSize) :
-    (∀ b', DecoderBuffer_Reset b = Res.ok b' → (b'.Data.len : Int) ≤ b'.DecoderConfig.BufferSize) ∧
-    (∀ x b' d, DecoderBuffer_shrink b x = Res.ok (b', d) → (b'.Data.len : Int) ≤ b'.DecoderConfig.BufferSize) ∧
-    (∀ c b' e, DecoderBuffer_WriteByte g b c = Res.ok (b', e) → (b'.Data.len : Int) ≤ b'.DecoderConfig.BufferSize) ∧
-    (∀ p b' n e, SWF p → DecoderBuffer_Write g b p = Res.ok (b', n, e) → (b'.Data.len : Int) ≤ b'.DecoderConfig.BufferSize) := by
-  have hm := (lenInv_iff b h).mpr hlen
-  refine ⟨?_, ?_, ?_, ?_⟩
-  · intro b' hb'
-    obtain ⟨b2, e1, e2, e3⟩ := gen_dbuf_reset b h
-    rw [e1] at hb'; cases hb'
-    exact (lenInv_iff _ e3).mp (by rw [e2]; exact model_reset_lenInv _)
-  · intro x b' d hb'
-    obtain ⟨b2, e1, e2, e3, _, _⟩ := gen_dbuf_shrink b h x
-    rw [e1] at hb'; cases hb'
-    exact (lenInv_iff _ e3).mp (by rw [e2]; exact model_shrink_lenInv _ _ hm)
-  · intro c b' e hb'
-    obtain ⟨b2, e2, e1, e3, _, e4⟩ := gen_dbuf_writeByte g hg b h c
-    rw [e1] at hb'; cases hb'
-    exact (lenInv_iff _ e4).mp (by rw [e3]; exact model_writeByte_lenInv g _ c hm)
-  · intro p b' n e hp hb'
-    obtain ⟨b2, e2, e1, e3, _, e4⟩ := gen_dbuf_write g hg b h p hp
-    rw [e1] at hb'; cases hb'
-    exact (lenInv_iff _ e4).mp (by rw [e3]; exact model_write_lenInv g _ _ hm)
-
-/-- D10' … and holds after a successful `Init` -/
-theorem gen_dbuf_init_lenInv (b b' : DecoderBuffer) (cfg : Gen.DecoderConfig)
-    (h : DecoderBuffer_Init b cfg = Res.ok (b', Gen.Err.ok)) :
-    (b'.Data.len : Int) ≤ b'.DecoderConfig.BufferSize := by
-  have := gen_dbuf_init b cfg
-  cases hi : DecBuf.init cfg.WindowSize cfg.BufferSize b.Data.cap with
-  | none =>
-    rw [hi] at this
-    obtain ⟨e, he, hne⟩ := this
-    rw [he] at h; cases h; exact absurd rfl hne
-  | some m =>
-    rw [hi] at this
-    obtain ⟨b2, e1, e2, e3⟩ := this
-    rw [e1] at h; cases h
-    refine (lenInv_iff _ e3).mp ?_
-    rw [e2]
-    unfold DecBuf.init at hi
-    split at hi
-    · cases hi
-    · cases hi; unfold LenInv; simp
-
-
-end LZ.GenBuf
-
-/-! ### axiom audit (printed on every build) -/
-#print axioms LZ.GenBuf.gen_pbuf_shrink
-#print axioms LZ.GenBuf.gen_pbuf_shrink_panic
-#print axioms LZ.GenBuf.gen_pbuf_byteAt
-#print axioms LZ.GenBuf.gen_pbuf_peekAt
-#print axioms LZ.GenBuf.gen_pbuf_readAt
-#print axioms LZ.GenBuf.gen_pbuf_reset
-#print axioms LZ.GenBuf.gen_pbuf_grow
-#print axioms LZ.GenBuf.gen_pbuf_write
-#print axioms LZ.GenBuf.gen_pbuf_init
-#print axioms LZ.GenBuf.gen_dbuf_init
-#print axioms LZ.GenBuf.gen_dbuf_reset
-#print axioms LZ.GenBuf.gen_dbuf_byteAtEnd
-#print axioms LZ.GenBuf.gen_dbuf_read
-#print axioms LZ.GenBuf.gen_dbuf_read_panic
-#print axioms LZ.GenBuf.gen_dbuf_shrink
-#print axioms LZ.GenBuf.gen_dbuf_writeByte
-#print axioms LZ.GenBuf.gen_dbuf_write
-#print axioms LZ.GenBuf.gen_dbuf_writeMatch
-#print axioms LZ.GenBuf.gen_dbuf_writeBlock
-#print axioms LZ.GenBuf.gen_dbuf_lenInv
-#print axioms LZ.GenBuf.gen_dbuf_init_lenInv
-#print axioms LZ.GenBuf.writeMatch_discrepancy
-#print axioms LZ.GenBuf.errVars_distinct
+import LzProofs.GenBufPropsP
+import LzProofs.GenBufPropsD
+import LzProofs.GenBufPropsDCopy
